@@ -5,7 +5,8 @@ import ast
 from ..model import (walk, dotted, call_name, kwarg, unparse, short, UNKNOWN,
                      root_name, AnalysisError, calls_in, stores_in_target)
 from ..cfg import cfg_of
-from ..flow import Deps, guards, must_pass, loop_slice
+from ..flow import (Deps, guards, must_pass, loop_slice, const_compare,
+                    reaching_defs)
 from .. import idioms as I
 
 STATES = 'states.py'
@@ -106,7 +107,95 @@ def _state_writes(f):
     return out
 
 
+def _memo(obj, key, fn):
+    """value computed once per program / function object"""
+    d = obj.__dict__.setdefault('_c06_memo', {})
+    if key not in d:
+        d[key] = fn()
+    return d[key]
+
+
+def _locals_of(f):
+    from ..flow import assigned_names
+    return _memo(f, 'locals', lambda: set(f.params) | assigned_names(f.node))
+
+
+def _flatten_closures(prog, f):
+    """f, or a copy of f in which the functions defined inside it that are
+    called exactly once, as a statement `name(args)`, are inlined at that
+    call (extract-to-local-function refactorings: a closure reads the
+    variables of f by name, its own variables are renamed).  The normalised
+    views of the engine inline helper methods, not closures."""
+    if not f.nested:
+        return f
+    return _memo(f, 'flat', lambda: _flatten_closures_(prog, f))
+
+
+def _flatten_closures_(prog, f):
+    import copy
+    from ..model import FuncInfo
+    from ..normalize import Inliner
+    node = copy.deepcopy(f.node)
+    work = FuncInfo(f.name, f.qual, f.module, f.cls, node)
+    done = False
+    for name, h in sorted(work.nested.items()):
+        hn = h.node
+        a = hn.args
+        if hn.decorator_list or a.vararg or a.kwarg or a.kwonlyargs or \
+                a.posonlyargs or any(
+                    isinstance(x, (ast.Return, ast.Yield, ast.YieldFrom,
+                                   ast.Await, ast.Global, ast.Nonlocal,
+                                   ast.FunctionDef, ast.AsyncFunctionDef,
+                                   ast.ClassDef, ast.Lambda))
+                    for x in ast.walk(hn) if x is not hn):
+            continue
+        refs = [x for x in ast.walk(node) if isinstance(x, ast.Name) and
+                x.id == name]
+        stmts = [x for x in ast.walk(node) if isinstance(x, ast.Expr) and
+                 isinstance(x.value, ast.Call) and
+                 isinstance(x.value.func, ast.Name) and
+                 x.value.func.id == name]
+        inside = {id(x) for x in ast.walk(hn)}
+        if len(refs) != 1 or len(stmts) != 1 or id(stmts[0]) in inside:
+            continue
+        shim = FuncInfo(name, h.qual, f.module, None, hn)
+        b = Inliner(prog, {}).bind(shim, stmts[0].value, name, set())
+        if b is None:
+            continue
+        new = (b[0] + b[1]) or [ast.Pass()]
+
+        def rewrite(body):
+            out = []
+            for st in body:
+                if st is hn:
+                    continue
+                if st is stmts[0]:
+                    out.extend(new)
+                    continue
+                if not isinstance(st, (ast.FunctionDef, ast.AsyncFunctionDef,
+                                       ast.ClassDef)):
+                    for fld in ('body', 'orelse', 'finalbody'):
+                        sub = getattr(st, fld, None)
+                        if isinstance(sub, list) and sub and \
+                                isinstance(sub[0], ast.stmt):
+                            setattr(st, fld, rewrite(sub))
+                    for hd in getattr(st, 'handlers', []) or []:
+                        hd.body = rewrite(hd.body)
+                out.append(st)
+            return out or [ast.Pass()]
+        node.body = rewrite(node.body)
+        done = True
+    if not done:
+        return f
+    ast.fix_missing_locations(node)
+    return FuncInfo(f.name, f.qual, f.module, f.cls, node, parent=f.parent)
+
+
 def _update_callers(prog):
+    return _memo(prog, 'update_callers', lambda: _update_callers_(prog))
+
+
+def _update_callers_(prog):
     """[(function, call)]: `<task object>._update(...)` anywhere in the
     package (receiver not self / super / a pilot)"""
     callers = []
@@ -115,6 +204,11 @@ def _update_callers(prog):
         for c in m.classes.values():
             funcs += list(c.methods.values())
         for f in funcs:
+            if f.nested and any(
+                    isinstance(c.func, ast.Attribute) and
+                    c.func.attr == '_update'
+                    for h in f.nested.values() for c in calls_in(h.node)):
+                f = _flatten_closures(prog, f)
             for c in calls_in(f.node, nested=True):
                 if isinstance(c.func, ast.Attribute) and \
                         c.func.attr == '_update' and \
@@ -196,29 +290,6 @@ def r06_2(prog, rep, rid='R06.2'):
                             % len(callers))
 
 
-def _linear(e):
-    """(coefficients {name: int}, constant) of an integer-linear expression
-    over plain names, or None"""
-    if isinstance(e, ast.Constant) and isinstance(e.value, int) and \
-            not isinstance(e.value, bool):
-        return {}, e.value
-    if isinstance(e, ast.Name):
-        return {e.id: 1}, 0
-    if isinstance(e, ast.UnaryOp) and isinstance(e.op, ast.USub):
-        x = _linear(e.operand)
-        return None if x is None else ({k: -v for k, v in x[0].items()}, -x[1])
-    if isinstance(e, ast.BinOp) and isinstance(e.op, (ast.Add, ast.Sub)):
-        l, r = _linear(e.left), _linear(e.right)
-        if l is None or r is None:
-            return None
-        sg = 1 if isinstance(e.op, ast.Add) else -1
-        co = dict(l[0])
-        for k, v in r[0].items():
-            co[k] = co.get(k, 0) + sg * v
-        return co, l[1] + sg * r[1]
-    return None
-
-
 def _origin(g, e, at):
     """unparse of an expression after following single reaching definitions
     of plain names (flow-sensitive, unlike Deps)"""
@@ -234,275 +305,1019 @@ def _origin(g, e, at):
 
 
 # ------------------------------------------------------------------------------
-# R06.3  guards dominate the write / the replay
+# evaluation of a pure helper function over the finite domain of the state
+# constants (R06.3 progress part, R06.7)
 #
+# `_task_state_progress` maps (current, target) - two of 18 state names - to
+# (new state, passed states).  Instead of recognising the spelling of its
+# guards and of the loop that builds the list, the function is evaluated for
+# every pair by the small evaluator below (assignments, if / for / while / try,
+# list / dict / tuple / set values, comprehensions, the module's tables and
+# helper functions).  Module-level objects live in a `heap` that persists over
+# the calls of one history, so that a function which keeps results between
+# calls shows as such.  Anything the evaluator does not model ends the rule as
+# UNRECOGNISED-IDIOM; nothing of /repo is imported or run.
+#
+class _Opq:
+    """a value nothing is known about (an unresolved global, the result of
+    a call that cannot be followed)"""
+    def __repr__(self):
+        return '<?>'
+
+    def __deepcopy__(self, memo):
+        return self
+
+
+_OPQ = _Opq()
+
+
+class _Fn:
+    def __init__(self, f):
+        self.f = f
+
+    def __deepcopy__(self, memo):
+        return self
+
+
+class _Flow(Exception):
+    pass
+
+
+class _RetX(_Flow):
+    def __init__(self, value):
+        _Flow.__init__(self)
+        self.value = value
+
+
+class _RaiseX(_Flow):
+    def __init__(self, name):
+        _Flow.__init__(self)
+        self.name = name
+
+
+class _BrkX(_Flow):
+    pass
+
+
+class _CntX(_Flow):
+    pass
+
+
+class _Bi:
+    def __init__(self, name):
+        self.name = name
+
+
+class _Attr:
+    def __init__(self, obj, name):
+        self.obj, self.name = obj, name
+
+
+_PURE = {'list': list, 'tuple': tuple, 'dict': dict, 'set': set,
+         'frozenset': frozenset, 'len': len, 'sorted': sorted, 'min': min,
+         'max': max, 'sum': sum, 'abs': abs, 'int': int, 'str': str,
+         'bool': bool, 'any': any, 'all': all, 'repr': repr,
+         'range': lambda *a: list(range(*a)),
+         'reversed': lambda x: list(reversed(x)),
+         'enumerate': lambda *a: list(enumerate(*a)),
+         'zip': lambda *a: list(zip(*a))}
+_METHODS = {
+    list: {'append', 'extend', 'insert', 'pop', 'remove', 'index', 'count',
+           'copy', 'reverse', 'sort', 'clear'},
+    dict: {'get', 'setdefault', 'pop', 'update', 'keys', 'values', 'items',
+           'copy', 'clear', 'popitem'},
+    set: {'add', 'discard', 'remove', 'union', 'intersection', 'difference',
+          'copy', 'clear', 'update', 'issubset', 'issuperset'},
+    frozenset: {'union', 'intersection', 'difference', 'issubset',
+                'issuperset'},
+    tuple: {'index', 'count'},
+    str: {'startswith', 'endswith', 'format', 'join', 'split', 'upper',
+          'lower', 'strip', 'replace', 'rsplit', 'partition', 'rpartition'},
+}
+_LAZY = {'keys', 'values', 'items'}
+_LOGGING = {'debug', 'info', 'warning', 'warn', 'error', 'exception',
+            'critical', 'prof', 'log'}
+_EXC_PARENTS = {'KeyError': ('LookupError',), 'IndexError': ('LookupError',),
+                'ZeroDivisionError': ('ArithmeticError',),
+                'UnboundLocalError': ('NameError',)}
+
+
+class _Interp:
+    """evaluates functions of the analysed program on concrete values"""
+
+    def __init__(self, prog, budget=400000):
+        self.prog = prog
+        self.heap = {}          # module-level objects: id(def expr) -> value
+        self.names = {}         # heap key -> name
+        self.loaded = {}        # heap key -> repr of the value when loaded
+        self.rebound = set()    # names bound through `global`
+        self.steps = 0
+        self.budget = budget
+
+    def fail(self, f, node, why):
+        raise AnalysisError('UNRECOGNISED-IDIOM %s: `%s` %s' % (
+            f.where if f is not None else '<module>', short(node, 50), why))
+
+    def load(self, key, name, v):
+        self.heap[key] = v
+        self.names[key] = name
+        self.loaded[key] = repr(v)
+        return v
+
+    def written(self):
+        """names of the module-level objects changed since they were loaded"""
+        return {self.names[k] for k, v in self.heap.items()
+                if k in self.loaded and repr(v) != self.loaded[k]} | \
+            self.rebound
+
+    # -- calls ----------------------------------------------------------------
+    def call(self, f, args, kwargs=None, depth=0):
+        """('ret', value) | ('raise', exception class name)"""
+        if depth > 4:
+            self.fail(f, f.node, 'call depth')
+        a = f.node.args
+        if a.vararg or a.kwarg or f.node.decorator_list:
+            self.fail(f, f.node, 'signature / decorator not modelled')
+        params = [x.arg for x in a.posonlyargs + a.args]
+        if len(args) > len(params):
+            return ('raise', 'TypeError')
+        env = dict(zip(params, args))
+        for k, v in (kwargs or {}).items():
+            if k in env or k not in params + [x.arg for x in a.kwonlyargs]:
+                return ('raise', 'TypeError')
+            env[k] = v
+        pos = a.posonlyargs + a.args
+        dflt = list(zip(pos[len(pos) - len(a.defaults):], a.defaults)) + \
+            [(p, d) for p, d in zip(a.kwonlyargs, a.kw_defaults)
+             if d is not None]
+        for prm, dv in dflt:
+            if prm.arg not in env:
+                # evaluated once, when the function is defined
+                key = ('default', id(dv))
+                if key not in self.heap:
+                    self.load(key, 'default of parameter `%s`' % prm.arg,
+                              self.ev(dv, _Frame(self, None, f.module, {},
+                                                 depth)))
+                env[prm.arg] = self.heap[key]
+        for p in params + [x.arg for x in a.kwonlyargs]:
+            if p not in env:
+                return ('raise', 'TypeError')
+        fr = _Frame(self, f, f.module, env, depth)
+        try:
+            self.block(f.node.body, fr)
+        except _RetX as r:
+            return ('ret', r.value)
+        except _RaiseX as r:
+            return ('raise', r.name)
+        return ('ret', None)
+
+    # -- names ----------------------------------------------------------------
+    def glob(self, fr, node, name):
+        r = self.prog.lookup(fr.module, name)
+        return self.ref(fr, node, r, name)
+
+    def ref(self, fr, node, r, name):
+        if r is None:
+            if name in _PURE:
+                return _Bi(name)
+            return _OPQ
+        if r[0] == 'func':
+            return _Fn(r[1])
+        if r[0] == 'const':
+            mod, exprs = r[1], r[2]
+            key = id(exprs[0])
+            if key not in self.heap:
+                import copy
+                pristine = _memo(self.prog, 'pristine', dict)
+                if key not in pristine:
+                    if len(exprs) == 1:
+                        v = self.ev(exprs[0], _Frame(self, None, mod, {},
+                                                     fr.depth + 1))
+                    else:
+                        v = self.prog.fold(mod, ast.Name(id=name,
+                                                         ctx=ast.Load()))
+                        if v is UNKNOWN:
+                            self.fail(fr.f, node, 'is bound several times at '
+                                      'module level')
+                    pristine[key] = v
+                # (the value its definition gives: a fresh copy per process)
+                self.load(key, name, copy.deepcopy(pristine[key]))
+            return self.heap[key]
+        return _OPQ
+
+    def gkey(self, fr, name):
+        r = self.prog.lookup(fr.module, name)
+        if r and r[0] == 'const':
+            return id(r[2][0])
+        return ('global', fr.module.rel, name)
+
+    # -- statements -----------------------------------------------------------
+    def tick(self, fr, node):
+        self.steps += 1
+        if self.steps > self.budget:
+            self.fail(fr.f, node, 'evaluation budget exceeded')
+
+    def block(self, stmts, fr):
+        for s in stmts:
+            self.stmt(s, fr)
+
+    def stmt(self, s, fr):
+        self.tick(fr, s)
+        if isinstance(s, ast.Expr):
+            if not isinstance(s.value, ast.Constant):
+                self.ev(s.value, fr)
+        elif isinstance(s, ast.Assign):
+            v = self.ev(s.value, fr)
+            for t in s.targets:
+                self.store(t, v, fr)
+        elif isinstance(s, ast.AnnAssign):
+            if s.value is not None:
+                self.store(s.target, self.ev(s.value, fr), fr)
+        elif isinstance(s, ast.AugAssign):
+            self.aug(s, fr)
+        elif isinstance(s, ast.If):
+            self.block(s.body if self.truth(s.test, fr) else s.orelse, fr)
+        elif isinstance(s, ast.For):
+            seq = self.ev(s.iter, fr)
+            if not isinstance(seq, (list, tuple, set, frozenset, dict, str)):
+                self.fail(fr.f, s.iter, 'is iterated but not a known sequence')
+            broke = False
+            for x in list(seq):
+                self.store(s.target, x, fr)
+                try:
+                    self.block(s.body, fr)
+                except _BrkX:
+                    broke = True
+                    break
+                except _CntX:
+                    continue
+            if not broke:
+                self.block(s.orelse, fr)
+        elif isinstance(s, ast.While):
+            broke = False
+            while self.truth(s.test, fr):
+                self.tick(fr, s)
+                try:
+                    self.block(s.body, fr)
+                except _BrkX:
+                    broke = True
+                    break
+                except _CntX:
+                    continue
+            if not broke:
+                self.block(s.orelse, fr)
+        elif isinstance(s, ast.Return):
+            raise _RetX(None if s.value is None else self.ev(s.value, fr))
+        elif isinstance(s, ast.Raise):
+            if s.exc is None:
+                if fr.handling:
+                    raise _RaiseX(fr.handling[-1])
+                self.fail(fr.f, s, 'outside a handler')
+            e = s.exc.func if isinstance(s.exc, ast.Call) else s.exc
+            raise _RaiseX(unparse(e).split('.')[-1])
+        elif isinstance(s, ast.Assert):
+            if not self.truth(s.test, fr):
+                raise _RaiseX('AssertionError')
+        elif isinstance(s, ast.Pass):
+            pass
+        elif isinstance(s, ast.Break):
+            raise _BrkX()
+        elif isinstance(s, ast.Continue):
+            raise _CntX()
+        elif isinstance(s, ast.Global):
+            fr.globals |= set(s.names)
+        elif isinstance(s, ast.Delete):
+            for t in s.targets:
+                if isinstance(t, ast.Name) and t.id in fr.env:
+                    del fr.env[t.id]
+                elif isinstance(t, ast.Subscript):
+                    b = self.ev(t.value, fr)
+                    k = self.index(t.slice, fr)
+                    if not isinstance(b, (list, dict)) or k is _OPQ:
+                        self.fail(fr.f, t, 'deletion not modelled')
+                    self.guarded(lambda: b.__delitem__(k))
+                else:
+                    self.fail(fr.f, t, 'deletion not modelled')
+        elif isinstance(s, ast.Try):
+            self.try_(s, fr)
+        elif isinstance(s, ast.With):
+            for it in s.items:
+                v = self.ev(it.context_expr, fr)
+                if v is not _OPQ:
+                    self.fail(fr.f, it.context_expr, 'context manager not '
+                              'modelled')
+                if it.optional_vars is not None:
+                    self.store(it.optional_vars, _OPQ, fr)
+            self.block(s.body, fr)
+        else:
+            self.fail(fr.f, s, 'statement not modelled')
+
+    def try_(self, s, fr):
+        try:
+            try:
+                self.block(s.body, fr)
+            except _RaiseX as r:
+                for h in s.handlers:
+                    if self.catches(h, r.name):
+                        if h.name:
+                            fr.env[h.name] = _OPQ
+                        fr.handling.append(r.name)
+                        try:
+                            self.block(h.body, fr)
+                        finally:
+                            fr.handling.pop()
+                        break
+                else:
+                    raise
+            else:
+                self.block(s.orelse, fr)
+        finally:
+            # (a `return` in a finally block overriding an exception in
+            # flight is not modelled: the block runs, the exception goes on)
+            self.block(s.finalbody, fr)
+
+    @staticmethod
+    def catches(h, name):
+        if h.type is None:
+            return True
+        for t in (h.type.elts if isinstance(h.type, ast.Tuple) else [h.type]):
+            n = unparse(t).split('.')[-1]
+            if n in ('Exception', 'BaseException', name) or \
+                    n in _EXC_PARENTS.get(name, ()):
+                return True
+        return False
+
+    def guarded(self, fn):
+        try:
+            return fn()
+        except _Flow:
+            raise
+        except AnalysisError:
+            raise
+        except Exception as e:                                  # noqa
+            raise _RaiseX(type(e).__name__)
+
+    def store(self, t, v, fr):
+        if isinstance(t, ast.Name):
+            if t.id in fr.globals:
+                self.heap[self.gkey(fr, t.id)] = v
+                self.rebound.add(t.id)
+            else:
+                fr.env[t.id] = v
+        elif isinstance(t, (ast.Tuple, ast.List)):
+            if any(isinstance(x, ast.Starred) for x in t.elts):
+                self.fail(fr.f, t, 'starred target not modelled')
+            if v is _OPQ:
+                for x in t.elts:
+                    self.store(x, _OPQ, fr)
+                return
+            if not isinstance(v, (list, tuple)):
+                self.fail(fr.f, t, 'unpacks a value that is not a sequence')
+            if len(v) != len(t.elts):
+                raise _RaiseX('ValueError')
+            for x, y in zip(t.elts, v):
+                self.store(x, y, fr)
+        elif isinstance(t, ast.Subscript):
+            b = self.ev(t.value, fr)
+            k = self.index(t.slice, fr)
+            if not isinstance(b, (list, dict)) or k is _OPQ:
+                self.fail(fr.f, t, 'store into a value that is not a known '
+                          'list / dict')
+            self.guarded(lambda: b.__setitem__(k, v))
+        else:
+            self.fail(fr.f, t, 'store target not modelled')
+
+    def aug(self, s, fr):
+        cur = self.ev(_load(s.target), fr)
+        v = self.ev(s.value, fr)
+        if cur is _OPQ or v is _OPQ:
+            new = _OPQ
+        elif isinstance(cur, list) and isinstance(s.op, ast.Add):
+            if not isinstance(v, (list, tuple, set, frozenset, dict, str)):
+                raise _RaiseX('TypeError')
+            cur.extend(v)                    # in place, like list.__iadd__
+            new = cur
+        else:
+            new = self.binop(s.op, cur, v, fr, s)
+        self.store(s.target, new, fr)
+
+    # -- expressions ----------------------------------------------------------
+    def truth(self, e, fr):
+        v = self.ev(e, fr)
+        if isinstance(v, (_Fn, _Opq, _Bi, _Attr)):
+            self.fail(fr.f, e, 'is tested but its value is not known')
+        return bool(v)
+
+    def index(self, sl, fr):
+        if isinstance(sl, ast.Slice):
+            parts = [None if x is None else self.ev(x, fr)
+                     for x in (sl.lower, sl.upper, sl.step)]
+            if any(p is _OPQ for p in parts):
+                return _OPQ
+            return slice(*parts)
+        return self.ev(sl, fr)
+
+    def binop(self, op, l, r, fr, node):
+        if l is _OPQ or r is _OPQ:
+            return _OPQ
+        fns = {ast.Add: lambda: l + r, ast.Sub: lambda: l - r,
+               ast.Mult: lambda: l * r, ast.Mod: lambda: l % r,
+               ast.FloorDiv: lambda: l // r, ast.BitOr: lambda: l | r,
+               ast.BitAnd: lambda: l & r}
+        fn = fns.get(type(op))
+        if fn is None or isinstance(l, (_Fn, _Bi, _Attr)) or \
+                isinstance(r, (_Fn, _Bi, _Attr)):
+            self.fail(fr.f, node, 'operator not modelled')
+        return self.guarded(fn)
+
+    def ev(self, e, fr):
+        self.tick(fr, e)
+        m = getattr(self, '_e_' + type(e).__name__, None)
+        if m is None:
+            self.fail(fr.f, e, 'expression not modelled')
+        return m(e, fr)
+
+    def _e_Constant(self, e, fr):
+        return e.value
+
+    def _e_Name(self, e, fr):
+        if e.id in fr.globals:
+            k = self.gkey(fr, e.id)
+            if k in self.heap:
+                return self.heap[k]
+            return self.glob(fr, e, e.id)
+        if e.id in fr.env:
+            return fr.env[e.id]
+        if e.id in fr.locals:
+            raise _RaiseX('UnboundLocalError')
+        return self.glob(fr, e, e.id)
+
+    def _e_Attribute(self, e, fr):
+        r = self.prog.resolve(fr.module, e) if isinstance(
+            root_name(e), str) and root_name(e) not in fr.env and \
+            root_name(e) not in fr.locals else None
+        if r is not None:
+            return self.ref(fr, e, r, e.attr)
+        b = self.ev(e.value, fr)
+        if b is _OPQ:
+            return _OPQ
+        return _Attr(b, e.attr)
+
+    def _e_Subscript(self, e, fr):
+        b = self.ev(e.value, fr)
+        k = self.index(e.slice, fr)
+        if b is _OPQ or k is _OPQ:
+            return _OPQ
+        if not isinstance(b, (list, tuple, dict, str)):
+            self.fail(fr.f, e, 'subscript of a value that is not a known '
+                      'container')
+        return self.guarded(lambda: b[k])
+
+    def _e_List(self, e, fr):
+        return self.elts(e, fr)
+
+    def _e_Tuple(self, e, fr):
+        return tuple(self.elts(e, fr))
+
+    def _e_Set(self, e, fr):
+        return self.guarded(lambda: set(self.elts(e, fr)))
+
+    def elts(self, e, fr):
+        out = []
+        for x in e.elts:
+            if isinstance(x, ast.Starred):
+                v = self.ev(x.value, fr)
+                if not isinstance(v, (list, tuple, set, frozenset)):
+                    self.fail(fr.f, x, 'starred value not a known sequence')
+                out.extend(v)
+            else:
+                out.append(self.ev(x, fr))
+        return out
+
+    def _e_Dict(self, e, fr):
+        out = {}
+        for k, v in zip(e.keys, e.values):
+            if k is None:
+                d = self.ev(v, fr)
+                if not isinstance(d, dict):
+                    self.fail(fr.f, v, 'unpacked value not a known dict')
+                out.update(d)
+                continue
+            kk, vv = self.ev(k, fr), self.ev(v, fr)
+            self.guarded(lambda: out.__setitem__(kk, vv))
+        return out
+
+    def _e_BoolOp(self, e, fr):
+        is_and = isinstance(e.op, ast.And)
+        v = None
+        for x in e.values:
+            v = self.ev(x, fr)
+            if isinstance(v, (_Fn, _Opq, _Bi, _Attr)):
+                self.fail(fr.f, x, 'is tested but its value is not known')
+            if bool(v) != is_and:
+                return v
+        return v
+
+    def _e_UnaryOp(self, e, fr):
+        if isinstance(e.op, ast.Not):
+            return not self.truth(e.operand, fr)
+        v = self.ev(e.operand, fr)
+        if v is _OPQ:
+            return _OPQ
+        if isinstance(e.op, ast.USub):
+            return self.guarded(lambda: -v)
+        if isinstance(e.op, ast.UAdd):
+            return self.guarded(lambda: +v)
+        self.fail(fr.f, e, 'operator not modelled')
+
+    def _e_BinOp(self, e, fr):
+        return self.binop(e.op, self.ev(e.left, fr), self.ev(e.right, fr),
+                          fr, e)
+
+    def _e_Compare(self, e, fr):
+        l = self.ev(e.left, fr)
+        for op, c in zip(e.ops, e.comparators):
+            r = self.ev(c, fr)
+            if l is _OPQ or r is _OPQ:
+                return _OPQ
+            if isinstance(op, (ast.Is, ast.IsNot)):
+                if l is None or r is None or isinstance(l, bool) or \
+                        isinstance(r, bool) or (
+                            isinstance(l, (list, dict, set)) and
+                            isinstance(r, (list, dict, set))):
+                    res = l is r
+                else:
+                    self.fail(fr.f, e, 'identity of values not modelled')
+                if isinstance(op, ast.IsNot):
+                    res = not res
+            else:
+                fn = {ast.Eq: lambda: l == r, ast.NotEq: lambda: l != r,
+                      ast.Lt: lambda: l < r, ast.LtE: lambda: l <= r,
+                      ast.Gt: lambda: l > r, ast.GtE: lambda: l >= r,
+                      ast.In: lambda: l in r,
+                      ast.NotIn: lambda: l not in r}[type(op)]
+                res = self.guarded(fn)
+            if not res:
+                return False
+            l = r
+        return True
+
+    def _e_IfExp(self, e, fr):
+        return self.ev(e.body if self.truth(e.test, fr) else e.orelse, fr)
+
+    def _e_NamedExpr(self, e, fr):
+        v = self.ev(e.value, fr)
+        self.store(e.target, v, fr)
+        return v
+
+    def _e_JoinedStr(self, e, fr):
+        out = ''
+        for p in e.values:
+            if isinstance(p, ast.Constant):
+                out += str(p.value)
+            elif isinstance(p, ast.FormattedValue):
+                v = self.ev(p.value, fr)
+                out += '<?>' if v is _OPQ or p.format_spec is not None \
+                    else str(v)
+        return out
+
+    def _e_FormattedValue(self, e, fr):
+        return _OPQ
+
+    def _comp(self, gens, fr, emit):
+        def rec(i):
+            if i == len(gens):
+                emit()
+                return
+            gen = gens[i]
+            seq = self.ev(gen.iter, fr)
+            if not isinstance(seq, (list, tuple, set, frozenset, dict, str)):
+                self.fail(fr.f, gen.iter, 'is iterated but not a known '
+                          'sequence')
+            for x in list(seq):
+                self.tick(fr, gen.iter)
+                self.store(gen.target, x, fr)
+                if all(self.truth(c, fr) for c in gen.ifs):
+                    rec(i + 1)
+        # (the loop variables of a comprehension are kept in the frame: they
+        # would be local to the comprehension, which only matters for a
+        # function that re-uses the name afterwards)
+        saved = dict(fr.env)
+        rec(0)
+        names = set()
+        for gen in gens:
+            names |= set(stores_in_target(gen.target))
+        for n in names:
+            if n in saved:
+                fr.env[n] = saved[n]
+            else:
+                fr.env.pop(n, None)
+
+    def _e_ListComp(self, e, fr):
+        out = []
+        self._comp(e.generators, fr, lambda: out.append(self.ev(e.elt, fr)))
+        return out
+
+    _e_GeneratorExp = _e_ListComp
+
+    def _e_SetComp(self, e, fr):
+        out = set()
+        self._comp(e.generators, fr, lambda: self.guarded(
+            lambda: out.add(self.ev(e.elt, fr))))
+        return out
+
+    def _e_DictComp(self, e, fr):
+        out = {}
+
+        def emit():
+            k, v = self.ev(e.key, fr), self.ev(e.value, fr)
+            self.guarded(lambda: out.__setitem__(k, v))
+        self._comp(e.generators, fr, emit)
+        return out
+
+    def _e_Call(self, e, fr):
+        if any(isinstance(a, ast.Starred) for a in e.args) or \
+                any(k.arg is None for k in e.keywords):
+            self.fail(fr.f, e, 'starred arguments not modelled')
+        fn = e.func
+        tgt = self.ev(fn, fr)
+        args = [self.ev(a, fr) for a in e.args]
+        kw = {k.arg: self.ev(k.value, fr) for k in e.keywords}
+        if isinstance(tgt, _Fn):
+            kind, v = self.call(tgt.f, args, kw, fr.depth + 1)
+            if kind == 'raise':
+                raise _RaiseX(v)
+            return v
+        odd = (_Fn, _Opq, _Bi, _Attr)
+        if isinstance(tgt, _Bi):
+            if kw and tgt.name not in ('sorted', 'dict', 'min', 'max'):
+                self.fail(fr.f, e, 'keyword arguments not modelled')
+            if any(isinstance(a, odd) for a in args + list(kw.values())):
+                if tgt.name in ('str', 'repr'):
+                    return '<?>'
+                return _OPQ
+            return self.guarded(lambda: _PURE[tgt.name](*args, **kw))
+        if isinstance(tgt, _Attr):
+            obj, name = tgt.obj, tgt.name
+            for ty, names in _METHODS.items():
+                if type(obj) is ty and name in names:
+                    if any(a is _OPQ for a in args) and ty is not str and \
+                            name in ('index', 'remove', 'pop', 'get',
+                                     'setdefault', 'discard', 'count'):
+                        return _OPQ
+                    res = self.guarded(
+                        lambda: getattr(obj, name)(*args, **kw))
+                    return list(res) if name in _LAZY else res
+            self.fail(fr.f, e, 'method of a %s value not modelled'
+                      % type(obj).__name__)
+        if tgt is _OPQ:
+            # a callee that cannot be followed: logging and profiling calls
+            # have no effect on the values; anything else must not receive a
+            # mutable value
+            name = fn.attr if isinstance(fn, ast.Attribute) else \
+                fn.id if isinstance(fn, ast.Name) else ''
+            if name not in _LOGGING and any(
+                    isinstance(a, (list, dict, set))
+                    for a in args + list(kw.values())):
+                self.fail(fr.f, e, 'hands a mutable value to a callee that '
+                          'cannot be followed')
+            return _OPQ
+        self.fail(fr.f, e, 'callee not modelled')
+
+
+def _load(t):
+    import copy
+    t2 = copy.copy(t)
+    t2.ctx = ast.Load()
+    return t2
+
+
+class _Frame:
+    def __init__(self, ip, f, module, env, depth):
+        self.f, self.module, self.env, self.depth = f, module, env, depth
+        self.globals = set()
+        self.handling = []
+        self.locals = set()
+        if f is not None:
+            self.locals = _memo(f, 'frame_locals', lambda: _locals_of(f) - {
+                x for n in walk(f.node) if isinstance(n, ast.Global)
+                for x in n.names})
+
+
+# ------------------------------------------------------------------------------
+# R06.3  Task._update and _task_state_progress, decided over the state constants
+#
+_SYNTH = ast.parse('task._update(task_dict)').body[0].value
+
+
+def _states(prog):
+    """(value table without None, non-final states in model order, finals)"""
+    tab = {k: v for k, v in prog.const(STATES,
+                                       '_task_state_values').items()
+           if k is not None}
+    final = [s for s in prog.const(STATES, 'FINAL') if s in tab]
+    nonfinal = sorted((s for s in tab if s not in final), key=lambda s: tab[s])
+    return tab, nonfinal, final
+
+
+def _replay_sites(prog, upd):
+    """the calls of Task._update the replay of _update_tasks makes (how they
+    bind the parameters other than the update dict); when the replay cannot
+    be located: a call with the update dict only"""
+    sites = [(f, c) for f, c in _update_callers(prog) if _in_replay(f, c)]
+    return sites or [(upd, _SYNTH)]
+
+
+def _anytime(prog):
+    """the states the model allows to be entered from anywhere"""
+    return {prog.const(STATES, 'FAILED'), prog.const(STATES, 'CANCELED')}
+
+
+def _verdict_table(prog, upd, curs, tgts):
+    """{(cur, tgt): [verdict per replay site]} of Task._update"""
+    out = {}
+    for f, call in _replay_sites(prog, upd):
+        cache = {}
+        for c in curs:
+            for t in tgts:
+                v = _update_verdict(prog, upd, f, call, c, t, cache)
+                if v[0] == 'unsure':
+                    raise AnalysisError(
+                        'UNRECOGNISED-IDIOM %s: cannot decide what an update '
+                        '%s -> %s does (%s)' % (upd.where, c, t, v[1]))
+                out.setdefault((c, t), []).append(v)
+    return out
+
+
+def _exempt_targets(prog):
+    """target states which Task._update accepts from a state that is not
+    their predecessor (no single-step test): decided by evaluating _update
+    for a NEW task"""
+    tab, nonfinal, final = _states(prog)
+    task = prog.cls(*TASK)
+    upd = prog.find_method(task, '_update')
+    cur = nonfinal[0]
+    vt = _verdict_table(prog, upd, [cur], [t for t in tab
+                                           if tab[t] - tab[cur] > 1])
+    return {t for (c, t), vs in vt.items()
+            if all(v[0] == 'leaves' and v[1] == t for v in vs)}
+
+
 def r06_3(prog, rep, rid='R06.3'):
-    rep.rule(rid, 'Task._update: the DONE/FAILED early return and the '
-             'single-step test dominate the state write; '
-             '_task_state_progress: contradictory finals raise before the '
-             'numeric comparison, no-progress returns carry an empty list, '
-             'the passed list is the range between current and target',
-             minimum=8)
+    rep.rule(rid, 'Task._update (evaluated for every pair of current and '
+             'target state): DONE/FAILED are never left, a step other than +1 '
+             'is refused unless the target is FAILED/CANCELED, valid steps '
+             'are applied; _task_state_progress (evaluated for every pair): '
+             'two final states and non-forward requests replay nothing, a '
+             'forward request replays the states strictly between current '
+             'and target followed by the target', minimum=8)
     task = prog.cls(*TASK)
     f = prog.find_method(task, '_update')
     rep.saw(f)
-    g = cfg_of(f)
-    smap = I.stmt_node_map(g)
-    d = Deps(f.node)
-    done, failed = prog.const(STATES, 'DONE'), prog.const(STATES, 'FAILED')
-    canceled = prog.const(STATES, 'CANCELED')
-    writes = [smap[id(n)] for n, how in _state_writes(f) if id(n) in smap]
-    if not writes:
+    if not _state_writes(f):
         raise AnalysisError('UNRECOGNISED-IDIOM %s: state write' % f.where)
-    W = writes[0]
-    # (1) sticky DONE / FAILED
-    ok1 = False
-    for tid, lab in guards(g, W.id):
-        a = g.nodes[tid].ast
-        if isinstance(a, ast.Compare) and len(a.ops) == 1 and \
-                isinstance(a.ops[0], (ast.In, ast.NotIn)):
-            v = prog.fold(f.module, a.comparators[0], f.cls)
-            if v is not UNKNOWN and {done, failed} <= set(v) and \
-                    _origin(g, a.left, tid) in ('self.state', 'self._state'):
-                if (isinstance(a.ops[0], ast.In) and lab == 'F') or \
-                        (isinstance(a.ops[0], ast.NotIn) and lab == 'T'):
-                    ok1 = True
-    if not ok1:
-        # not in the form `current [not] in <list>`: decide it by evaluating
-        # the method for every (DONE / FAILED, target) pair (R06.6)
-        cache = {}
-        try:
-            ok1 = all(_update_verdict(prog, f, None, None, c, t, cache)[0] ==
-                      'refused' for c in (done, failed)
-                      for t in prog.const(STATES, '_task_state_values')
-                      if t is not None)
-        except AnalysisError:
-            ok1 = False
-    rep.check(ok1, rid, f, 'the state write is reached only when the current '
-              'state is not DONE/FAILED', construct='update:sticky',
-              message='Task._update can write the state although the task is '
-              'already DONE or FAILED (early return missing, on the wrong '
-              'operand, or with the wrong polarity)', loc=f.loc(W.ast),
-              history='a task is DONE; a late AGENT_EXECUTING notification '
-              'makes Task.state non-final again')
-    # (2) single step: a test that is linear in the two state values,
-    #     equivalent to  target_value - current_value == 1
-    step = None
-    lin = None
-    for n in g.nodes:
-        if n.kind == 'test' and isinstance(n.ast, ast.Compare) and \
-                len(n.ast.ops) == 1 and \
-                isinstance(n.ast.ops[0], (ast.Eq, ast.NotEq, ast.Lt, ast.Gt,
-                                          ast.LtE, ast.GtE)):
-            l = _linear(n.ast.left)
-            r = _linear(n.ast.comparators[0])
-            if l is None or r is None:
-                continue
-            co = dict(l[0])
-            for k, v in r[0].items():
-                co[k] = co.get(k, 0) - v
-            co = {k: v for k, v in co.items() if v}
-            const = l[1] - r[1]
-            if len(co) == 2 and sorted(co.values()) == [-1, 1]:
-                step, lin = n, (co, const)
-    if step is None:
-        rep.bad(rid, f, 'update:single-step', 'Task._update has no single-step '
-                'test (`target value - current value != 1` => raise): a '
-                'notification can skip states', f.loc(),
-                history='NEW -> AGENT_EXECUTING is applied directly; the '
-                'callbacks never see the states in between')
-    else:
-        a = step.ast
-        op = a.ops[0]
-        co, const = lin
-        pos = [k for k, v in co.items() if v == 1][0]
-        neg = [k for k, v in co.items() if v == -1][0]
-        dn = Deps(f.node, implicit=False)
+    tab, nonfinal, final = _states(prog)
+    done, failed = prog.const(STATES, 'DONE'), prog.const(STATES, 'FAILED')
+    anytime = _anytime(prog)
+    allst = nonfinal + final
+    vt = _verdict_table(prog, f, [s for s in allst if s in nonfinal or
+                                  s in (done, failed)], allst)
 
-        def dep_of(nm):
-            return dn.closure(nm) | {nm}
-        # orientation: which of the two names is the target value
-        p_t = "task_dict['state']" in dep_of(pos)
-        n_t = "task_dict['state']" in dep_of(neg)
-        p_c = bool({'self.state', 'self._state'} & dep_of(pos))
-        n_c = bool({'self.state', 'self._state'} & dep_of(neg))
-        # pos - neg + const  OP  0 ; with pos = target: target - current + const
-        bad_lab = None
-        dir_ok = False
-        if p_t and n_c and not (n_t and not p_c):
-            dir_ok = True
-            want = -1          # target - current - 1 == 0
-        elif n_t and p_c:
-            dir_ok = True
-            want = 1           # current - target + 1 == 0
-        else:
-            want = None
-        if want is not None and const == want:
-            if isinstance(op, ast.NotEq):
-                bad_lab = 'T'
-            elif isinstance(op, ast.Eq):
-                bad_lab = 'F'
-        raises = False
-        if bad_lab:
-            for e in g.succ[step.id]:
-                if e.label == bad_lab:
-                    r = g.reachable(e.dst, labels={'next', 'T', 'F', 'iter',
-                                                   'done'})
-                    raises = W.id not in r and g.exit.id not in r
-        rep.check(bool(bad_lab) and dir_ok and raises, rid, f,
-                  'a step other than +1 (target - current) raises',
-                  construct='update:single-step', message='Task._update: the '
-                  'single-step test `%s` does not reject every transition '
-                  'other than target = current + 1 (%s)' % (
-                      short(a, 50), 'operands not target / current state '
-                      'values' if not dir_ok else 'wrong operator/constant'
-                      if not bad_lab else 'the offending branch does not '
-                      'raise'),
-                  loc=f.loc(a), history='NEW -> AGENT_EXECUTING (or a step '
-                  'backwards) is applied; callbacks see states out of order')
-        # every path to the write for a non-final target without `reconnect`
-        # passes the test
-        rec = [(n.id, 'T') for n in g.nodes if n.kind == 'test' and
-               isinstance(n.ast, ast.Name) and n.ast.id == 'reconnect']
-        fin = []
-        for n in g.nodes:
-            if n.kind == 'test' and isinstance(n.ast, ast.Compare) and \
-                    len(n.ast.ops) == 1 and \
-                    isinstance(n.ast.ops[0], (ast.In, ast.NotIn)):
-                v = prog.fold(f.module, n.ast.comparators[0], f.cls)
-                if v is not UNKNOWN and set(v) == {failed, canceled}:
-                    fin.append((n.id, 'F' if isinstance(n.ast.ops[0],
-                                                        ast.NotIn) else 'T'))
-        r = g.reachable(g.entry.id, skip_nodes={step.id},
-                        skip_edges=rec + fin)
-        rep.check(W.id not in r and bool(fin), rid, f, 'every non-FAILED/'
-                  'CANCELED update passes the single-step test before the '
-                  'write', construct='update:step-dominates',
-                  message='Task._update: a target other than FAILED/CANCELED '
-                  'can reach the state write without passing the single-step '
-                  'test', loc=f.loc(W.ast))
+    def first(pred):
+        for (c, t), vs in vt.items():
+            for v in vs:
+                if pred(c, t, v):
+                    return c, t, v
+        return None
+
+    def show(v):
+        return 'leaves the state untouched' if v[0] == 'refused' else \
+            'writes the state %s (%s)' % (v[1], v[2])
+    # (1) sticky DONE / FAILED
+    w = first(lambda c, t, v: c in (done, failed) and v[0] != 'refused')
+    rep.check(w is None, rid, f, 'the state of a DONE / FAILED task is never '
+              'written (all %d target states)' % len(allst),
+              construct='update:sticky',
+              message='Task._update writes the state although the task is '
+              'already DONE or FAILED (early return missing, on the wrong '
+              'operand, or with the wrong polarity): for a %s task an update '
+              'to %s %s' % (w[:2] + (show(w[2]),) if w else ('', '', '')),
+              loc=f.loc(), history='a task is %s; a late %s notification '
+              'changes Task.state again' % (w[:2] if w else ('', '')))
+    # (2) single step
+    w = first(lambda c, t, v: c in nonfinal and t not in anytime and
+              tab[t] - tab[c] != 1 and v[0] != 'refused')
+    rep.check(w is None, rid, f, 'a step other than +1 (target - current) to '
+              'a state other than FAILED/CANCELED is refused',
+              construct='update:single-step',
+              message='Task._update does not reject every transition other '
+              'than target = current + 1: for a task in state %s an update to '
+              '%s %s' % (w[:2] + (show(w[2]),) if w else ('', '', '')),
+              loc=f.loc(), history='%s -> %s is applied directly; Task.state '
+              'skips states or moves backwards, the callbacks see states out '
+              'of order' % (w[:2] if w else ('', '')))
+    # (3) valid steps are applied
+    w = first(lambda c, t, v: c in nonfinal and t not in anytime and
+              tab[t] - tab[c] == 1 and (v[0] != 'leaves' or v[1] != t))
+    rep.check(w is None, rid, f, 'the step to the next state is applied',
+              construct='update:step-applied',
+              message='Task._update does not apply a valid single step: for '
+              'a task in state %s an update to %s %s'
+              % (w[:2] + (show(w[2]),) if w else ('', '', '')), loc=f.loc(),
+              history='%s -> %s: the replay of _update_tasks is rejected (or '
+              'writes another state), Task.state never follows the '
+              'notifications' % (w[:2] if w else ('', '')))
+    w = first(lambda c, t, v: c in nonfinal and t in anytime and
+              (v[0] != 'leaves' or v[1] != t))
+    rep.check(w is None, rid, f, 'FAILED / CANCELED are entered from every '
+              'non-final state', construct='update:any-time',
+              message='Task._update does not apply an update to FAILED / '
+              'CANCELED from every non-final state: for a task in state %s '
+              'an update to %s %s' % (w[:2] + (show(w[2]),) if w
+                                      else ('', '', '')), loc=f.loc(),
+              history='a task fails in state %s: Task.state never becomes %s'
+              % (w[:2] if w else ('', '')))
 
     # _task_state_progress
     fp = prog.function(STATES, '_task_state_progress')
     rep.saw(fp)
-    g = cfg_of(fp)
-    smap = I.stmt_node_map(g)
+    pairs = [(c, t) for c in allst for t in allst]
+    res = _progress_results(prog, fp, pairs, fresh=True)
+    inv = {tab[s]: s for s in nonfinal}
+    if sorted(inv) != list(range(len(nonfinal))) or \
+            {tab[s] for s in final} != {len(nonfinal)}:
+        raise AnalysisError('%s: the state table is not a linear order '
+                            '(R06.1): the passed states cannot be specified'
+                            % fp.where)
+
+    def want(c, t):
+        if c in final and t in final:
+            return 'final'
+        if tab[t] <= tab[c]:
+            return 'stale'
+        return [inv[i] for i in range(tab[c] + 1, tab[t])] + [t]
+
+    def firstp(pred):
+        for p in pairs:
+            if pred(p[0], p[1], res[p]):
+                return p[0], p[1], res[p]
+        return None
+
+    def showp(r):
+        return 'raises %s' % r[1] if r[0] == 'raise' else \
+            'returns (%s, %s)' % (r[1], _showlist(r[2]))
+    w = firstp(lambda c, t, r: want(c, t) == 'final' and r[0] == 'ret' and
+               r[2])
+    rep.check(w is None, rid, fp, 'a request final -> final replays no state '
+              '(it raises or returns an empty list)',
+              construct='progress:final-final',
+              message='_task_state_progress(uid, %s, %s) %s: a task that is '
+              'already final gets states to replay; Task._update is called '
+              'for a final task and its callbacks fire once more'
+              % (w[:2] + (showp(w[2]),) if w else ('', '', '')),
+              loc=fp.loc(), history='%s followed by %s for the same task'
+              % (w[:2] if w else ('', '')))
+    w = firstp(lambda c, t, r: want(c, t) == 'stale' and r[0] == 'ret' and
+               r[2])
+    rep.check(w is None, rid, fp, 'a request that is no progress (target '
+              'value <= current value) replays no state',
+              construct='progress:no-progress',
+              message='_task_state_progress(uid, %s, %s) %s: equal or earlier '
+              'states are replayed' % (w[:2] + (showp(w[2]),) if w
+                                       else ('', '', '')), loc=fp.loc(),
+              history='a duplicated or late notification (%s while the task '
+              'is %s) triggers callbacks again' % ((w[1], w[0]) if w
+                                                   else ('', '')))
+    w = firstp(lambda c, t, r: isinstance(want(c, t), list) and
+               (r[0] != 'ret' or r[2] != want(c, t)))
+    rep.check(w is None, rid, fp, 'passed = states of range(current+1, '
+              'target) + [target] for every forward request',
+              construct='progress:range',
+              message='_task_state_progress(uid, %s, %s) %s; the passed '
+              'states must be %s (the states strictly between current and '
+              'target followed by the target)' % (
+                  w[:2] + (showp(w[2]), _showlist(want(w[0], w[1]))) if w
+                  else ('', '', '', '')), loc=fp.loc(),
+              history='a notification %s -> %s: the replay announces the '
+              'wrong states, omits the target or repeats the current state'
+              % (w[:2] if w else ('', '')))
+    w = firstp(lambda c, t, r: isinstance(want(c, t), list) and
+               r[0] == 'ret' and r[1] != t)
+    rep.check(w is None, rid, fp, 'the first result of a forward request is '
+              'the target state', construct='progress:result',
+              message='_task_state_progress(uid, %s, %s) %s: the first result '
+              'is not the target state, on which _update_tasks decides '
+              'whether intermediate states are replayed'
+              % (w[:2] + (showp(w[2]),) if w else ('', '', '')),
+              loc=fp.loc(), history='%s -> %s' % (w[:2] if w else ('', '')))
+
+
+def _showlist(l):
+    if len(l) <= 3:
+        return '[%s]' % ', '.join(map(str, l))
+    return '[%s, ... %d more ..., %s]' % (l[0], len(l) - 2, l[-1])
+
+
+def _progress_call(prog, fp, ip, cur, tgt, n):
+    """('ret', new state, [passed]) | ('raise', exception name)"""
     params = fp.params
+    # (uid, current, target), as _update_tasks calls it; every call is made
+    # for another task
     if len(params) < 3:
         raise AnalysisError('UNRECOGNISED-IDIOM %s: parameters' % fp.where)
-    cur_p, tgt_p = params[-2], params[-1]
-    final = set(prog.const(STATES, 'FINAL'))
+    r = ip.call(fp, ['task.%06d' % n, cur, tgt])
+    if r[0] == 'raise':
+        return r
+    v = r[1]
+    if not isinstance(v, (list, tuple)) or len(v) != 2 or \
+            not isinstance(v[1], (list, tuple)):
+        raise AnalysisError('UNRECOGNISED-IDIOM %s: (%s, %s) returns `%r`, '
+                            'not (state, [passed states])'
+                            % (fp.where, cur, tgt, v))
+    return ('ret', v[0], list(v[1]))
 
-    def final_tests(pname):
-        out = []
-        for n in g.nodes:
-            if n.kind == 'test' and isinstance(n.ast, ast.Compare) and \
-                    len(n.ast.ops) == 1 and isinstance(n.ast.ops[0], ast.In) \
-                    and unparse(n.ast.left) == pname:
-                v = prog.fold(fp.module, n.ast.comparators[0])
-                if v is not UNKNOWN and set(v) == final:
-                    out.append(n)
-        return out
-    ct, tt = final_tests(cur_p), final_tests(tgt_p)
-    numeric = [n for n in g.nodes if n.kind == 'test' and
-               isinstance(n.ast, ast.Compare) and len(n.ast.ops) == 1 and
-               isinstance(n.ast.ops[0], (ast.GtE, ast.Gt, ast.Lt, ast.LtE))]
-    raises = [n for n in g.stmt_nodes() if n.kind == 'stmt' and
-              isinstance(n.ast, ast.Raise)]
-    if not numeric:
-        raise AnalysisError('UNRECOGNISED-IDIOM %s: numeric comparison'
-                            % fp.where)
-    skip = [(n.id, 'F') for n in ct + tt]
-    r = g.reachable(g.entry.id, skip_edges=skip)
-    okr = bool(ct) and bool(tt) and bool(raises) and \
-        not any(n.id in r for n in numeric) and any(x.id in r for x in raises)
-    rep.check(okr, rid, fp, 'two final states never reach the numeric '
-              'comparison: they raise (or take the CANCELED correction)',
-              construct='progress:final-final', message='_task_state_progress '
-              'lets a final -> final request reach the numeric comparison: '
-              'finals compare equal, the contradiction is silently dropped '
-              'instead of being reported (or, with changed values, a final '
-              'state is replaced)', loc=fp.loc(),
-              history='DONE followed by FAILED for the same task')
-    # no-progress returns carry an empty list
-    for n in g.stmt_nodes():
-        if n.kind != 'stmt' or not isinstance(n.ast, ast.Return):
-            continue
-        v = n.ast.value
-        if isinstance(v, (ast.List, ast.Tuple)) and len(v.elts) == 2:
-            first, second = v.elts
-            if isinstance(second, (ast.List, ast.Tuple)):
-                rep.check(not second.elts, rid, fp, '`%s` carries an empty '
-                          'passed list' % short(n.ast, 40), construct=n.ast,
-                          message='_task_state_progress returns a literal, '
-                          'non-empty passed list `%s`' % short(n.ast, 50),
-                          loc=fp.loc(n.ast))
-            elif isinstance(second, ast.Name):
-                # the computed list: guarded by cur < tgt
-                okg = False
-                for tid, lab in guards(g, n.id):
-                    a = g.nodes[tid].ast
-                    if g.nodes[tid] in numeric:
-                        op = a.ops[0]
-                        l_cur = cur_p[:3] in unparse(a.left)
-                        if l_cur and (isinstance(op, ast.GtE) and lab == 'F'
-                                      or isinstance(op, ast.Lt) and lab == 'T'):
-                            okg = True
-                        if not l_cur and (isinstance(op, ast.LtE) and
-                                          lab == 'F' or isinstance(op, ast.Gt)
-                                          and lab == 'T'):
-                            okg = True
-                rep.check(okg, rid, fp, 'the computed passed list is returned '
-                          'only when current < target', construct=n.ast,
-                          message='_task_state_progress returns the computed '
-                          'list without (or with a wrongly oriented) '
-                          '`current >= target` guard: equal or earlier states '
-                          'are replayed', loc=fp.loc(n.ast),
-                          history='a duplicate notification triggers the '
-                          'callback for the same state again')
-                # built from range(cur + 1, tgt) + target
-                pl = second.id
-                rng = [x for x in walk(fp.node) if isinstance(x, ast.For) and
-                       isinstance(x.iter, ast.Call) and
-                       dotted(x.iter.func) == 'range' and any(
-                           isinstance(c.func, ast.Attribute) and
-                           c.func.attr == 'append' and
-                           unparse(c.func.value) == pl for c in calls_in(x))]
-                okb = False
-                if rng:
-                    a0 = rng[0].iter.args
-                    okb = len(a0) == 2 and isinstance(a0[0], ast.BinOp) and \
-                        isinstance(a0[0].op, ast.Add) and \
-                        unparse(a0[0].right) == '1' and \
-                        '_task_state_inv' in unparse(rng[0])
-                last = [c for c in calls_in(fp.node)
-                        if isinstance(c.func, ast.Attribute) and
-                        c.func.attr == 'append' and
-                        unparse(c.func.value) == pl and c.args and
-                        unparse(c.args[0]) == tgt_p]
-                # passed += [target] / passed.extend([target])
-                for x in walk(fp.node):
-                    if isinstance(x, ast.AugAssign) and \
-                            isinstance(x.op, ast.Add) and \
-                            unparse(x.target) == pl and \
-                            isinstance(x.value, (ast.List, ast.Tuple)) and \
-                            [unparse(e) for e in x.value.elts] == [tgt_p]:
-                        last.append(x)
-                    if isinstance(x, ast.Call) and \
-                            isinstance(x.func, ast.Attribute) and \
-                            x.func.attr == 'extend' and \
-                            unparse(x.func.value) == pl and x.args and \
-                            isinstance(x.args[0], (ast.List, ast.Tuple)) and \
-                            [unparse(e) for e in x.args[0].elts] == [tgt_p]:
-                        last.append(x)
-                rep.check(okb and len(last) == 1, rid, fp, 'passed = states '
-                          'of range(current+1, target) + [target]',
-                          construct='progress:range', message='_task_state_'
-                          'progress does not build the passed list as the '
-                          'states strictly between current and target '
-                          'followed by the target', loc=fp.loc(n.ast),
-                          history='NEW -> TMGR_STAGING_INPUT replays NEW '
-                          'again or omits the target state')
+
+def _progress_results(prog, fp, pairs, fresh):
+    """results of _task_state_progress for the pairs; fresh: every call is
+    the first one made in the process, else: one process, calls in order"""
+    if fresh:
+        return _memo(prog, ('fresh', id(fp), tuple(pairs)),
+                     lambda: _progress_results_(prog, fp, pairs, True))
+    return _progress_results_(prog, fp, pairs, False)
+
+
+def _progress_results_(prog, fp, pairs, fresh):
+    out = {}
+    ip = None
+    for n, (c, t) in enumerate(pairs):
+        if fresh or ip is None:
+            ip = _Interp(prog)
+        out[c, t] = _progress_call(prog, fp, ip, c, t, n)
+    return out
+
+
+# ------------------------------------------------------------------------------
+# R06.7  _task_state_progress is a function of its arguments
+#
+def r06_7(prog, rep, rid='R06.7'):
+    rep.rule(rid, 'the result of _task_state_progress depends on its '
+             'arguments only: what an earlier call (for another task) '
+             'computed is never handed out for a different current / target '
+             'state (final states share one value: a result kept per state '
+             'value belongs to three target states)', minimum=1)
+    fp = prog.function(STATES, '_task_state_progress')
+    rep.saw(fp)
+    tab, nonfinal, final = _states(prog)
+    allst = nonfinal + final
+    pairs = [(c, t) for c in allst for t in allst]
+    fresh = _progress_results(prog, fp, pairs, fresh=True)
+    witness = None
+    for order in (pairs, pairs[::-1]):
+        seq = _progress_results(prog, fp, order, fresh=False)
+        diff = [(len(fresh[p][-1]) if fresh[p][0] == 'ret' else 0, i)
+                for i, p in enumerate(order) if seq[p] != fresh[p]]
+        if diff:
+            # the discrepancy with the shortest list of passed states
+            i = min(diff)[1]
+            witness = (order, i, order[i], seq[order[i]])
+            break
+    if witness is None:
+        rep.ok(rid, fp, 'every (current, target) pair gives the same result '
+               'after any of the two enumeration orders of all %d pairs as '
+               'when it is the first call' % len(pairs), fp.loc())
+        return
+    order, i, p2, got = witness
+    # the shortest history: one earlier call
+    p1 = None
+    for q in reversed(order[:i]):
+        ip = _Interp(prog)
+        _progress_call(prog, fp, ip, q[0], q[1], 0)
+        if _progress_call(prog, fp, ip, p2[0], p2[1], 1) != fresh[p2]:
+            p1 = q
+            break
+    ip = _Interp(prog)
+    for q in ([p1] if p1 else order[:i]):
+        _progress_call(prog, fp, ip, q[0], q[1], 0)
+    written = sorted(ip.written())
+
+    def showp(r):
+        return 'raises %s' % r[1] if r[0] == 'raise' else \
+            '(%s, %s)' % (r[1], _showlist(r[2]))
+    hist = 'task A: %s -> %s, then task B: %s -> %s' % (p1 + p2) if p1 else \
+        'the %d calls before (%s -> %s) in the enumeration of all pairs' % (
+            (i,) + p2)
+    rep.bad(rid, fp, 'progress:history',
+            '_task_state_progress(uid, %s, %s) gives %s when it is the first '
+            'call, but %s after %s: the function keeps results between calls '
+            '(module-level state written: %s) under a key that does not '
+            'determine the states - DONE, FAILED and CANCELED share one '
+            'value - so that the passed states replayed for one task are '
+            'those computed for another task; Task.state and the callbacks '
+            'follow the stale list' % (
+                p2[0], p2[1], showp(fresh[p2]), showp(got), hist,
+                ', '.join(written) or 'not identified'), fp.loc(),
+            history=hist + ': task B is replayed %s instead of %s' % (
+                showp(got), showp(fresh[p2])))
 
 
 # ------------------------------------------------------------------------------
@@ -544,26 +1359,12 @@ def _raised_types(prog, callee, depth=2, seen=None):
     return out
 
 
-def _exempt_targets(prog):
-    """target states for which Task._update skips the single-step test"""
-    task = prog.cls(*TASK)
-    f = prog.find_method(task, '_update')
-    g = cfg_of(f)
-    for n in g.nodes:
-        if n.kind == 'test' and isinstance(n.ast, ast.Compare) and \
-                len(n.ast.ops) == 1 and \
-                isinstance(n.ast.ops[0], (ast.In, ast.NotIn)) and \
-                'target' in unparse(n.ast.left):
-            v = prog.fold(f.module, n.ast.comparators[0], f.cls)
-            if v is not UNKNOWN and isinstance(v, (list, tuple)) and \
-                    isinstance(n.ast.ops[0], ast.NotIn):
-                return set(v)
-    return set()
-
-
 def batch_info(prog):
     tm = prog.cls(*TMGR)
     f = prog.find_method(tm, '_update_tasks')
+    if f is None:
+        raise AnalysisError('anchor %s._update_tasks not found' % tm.where)
+    f = _flatten_closures(prog, f)
     g = cfg_of(f)
     smap = I.stmt_node_map(g)
     param = [p for p in f.params if p != 'self'][0]
@@ -635,6 +1436,31 @@ def r06_4(prog, rep, rid='R06.4'):
                                    if ed.label != 'exc'):
                             rer = True
                     caught = not rer
+                    # ... and go on with the next notification: the loop is
+                    # left only through its head
+                    for h in (hd if caught else []):
+                        r = g.reachable(h.id, skip_nodes={H.id},
+                                        labels={'next', 'T', 'F', 'iter',
+                                                'done'})
+                        out = sorted(x for x in r
+                                     if x not in body and x != H.id)
+                        rep.check(not out, rid, f, 'the handler of `%s` goes '
+                                  'on with the next notification'
+                                  % short(c, 40),
+                                  construct='batch:handler-continues',
+                                  message='TaskManager._update_tasks catches '
+                                  'the exception `%s` raises by design, but '
+                                  'the handler leaves the loop over the '
+                                  'notifications (break / return) instead of '
+                                  'going on with the next one: one '
+                                  'contradictory or invalid notification '
+                                  'keeps all later notifications of the '
+                                  'batch from being applied' % short(c, 50),
+                                  loc=f.loc(h.ast),
+                                  history='batch [t1: FAILED after DONE, t2: '
+                                  'DONE]: t1 raises, the handler ends the '
+                                  'loop, t2 is never updated and its '
+                                  'callbacks never fire')
             rep.check(caught, rid, f, '`%s` (raises by design) is isolated per '
                       'notification' % short(c, 50), construct=c,
                       message='TaskManager._update_tasks calls `%s`, which '
@@ -754,32 +1580,100 @@ def r06_5(prog, rep, rid='R06.5'):
               history='NEW -> AGENT_SCHEDULING: intermediate states are '
               'announced but never applied, or applied with the final target '
               'so that _update rejects the step')
-    # rewrites of the passed list between progress and replay keep the order
+    # the definitions of the list that reach the replay loop: the result of
+    # the progress call, possibly rewritten on the way
+    live, todo = set(), [R.id]
+    while todo:
+        at = todo.pop()
+        for dn, dv in reaching_defs(g, passed, at):
+            if dn.id not in live:
+                live.add(dn.id)
+                if dv is not None and passed in {
+                        x.id for x in walk(dv) if isinstance(x, ast.Name)}:
+                    todo.append(dn.id)
+    final = set(prog.const(STATES, 'FINAL'))
     for n in g.stmt_nodes():
         if n.kind == 'stmt' and isinstance(n.ast, ast.Assign) and any(
                 isinstance(t, ast.Name) and t.id == passed
-                for t in n.ast.targets) and n is not pn:
+                for t in n.ast.targets) and n is not pn and n.id in live:
             v = n.ast.value
+            if passed not in {x.id for x in walk(v) if isinstance(x, ast.Name)}:
+                # another source of states to replay
+                if isinstance(v, (ast.List, ast.Tuple)) and not v.elts or \
+                        isinstance(v, ast.Call) and not v.args and \
+                        dotted(v.func) in ('list', 'tuple'):
+                    rep.ok(rid, f, '`%s`: nothing is replayed'
+                           % short(n.ast, 30), f.loc(n.ast))
+                    continue
+                for tid, lab in guards(g, n.id, start=start):
+                    t = g.nodes[tid].ast
+                    cc = const_compare(prog, f.module, t, f.cls)
+                    if cc and cc[2] and cc[2] <= final and \
+                            (cc[1] == 'notin') == (lab == 'T') and \
+                            _origin(g, t.left, tid).endswith('.state'):
+                        raise AnalysisError(
+                            'UNRECOGNISED-IDIOM %s: `%s` replays states that '
+                            'are not the result of _task_state_progress, for '
+                            'tasks that are not final (`%s`): equivalence '
+                            'with the progress function is not decided here'
+                            % (f.where, short(n.ast, 40), short(t, 40)))
+                rep.bad(rid, f, 'batch:replay-source',
+                        '_update_tasks replays `%s`, a list that is not the '
+                        'result of _task_state_progress(uid, current, '
+                        'target).  The progress function is also the arbiter '
+                        'between contradictory final states (a CANCELED task '
+                        'gets an empty list for a late FAILED / DONE, a DONE '
+                        'or FAILED task makes it raise): bypassing it hands '
+                        'a task that is already final to Task._update again '
+                        'and announces a second final state to the callbacks'
+                        % short(n.ast, 40), f.loc(n.ast),
+                        history='CANCELED followed by FAILED for the same '
+                        'task (cancel raced a failure): two final callbacks, '
+                        'Task.state changes from CANCELED to FAILED; DONE '
+                        'followed by CANCELED: the callbacks fire again for '
+                        'a task that is DONE')
+                continue
             okv = isinstance(v, ast.Subscript) and \
                 isinstance(v.value, ast.Name) and v.value.id == passed and \
                 isinstance(v.slice, ast.Slice) and (
                     v.slice.step is None or unparse(v.slice.step) == '1')
+            if unparse(v) in ('list(%s)' % passed, 'tuple(%s)' % passed,
+                              '%s.copy()' % passed):
+                rep.ok(rid, f, '`%s` keeps the model order'
+                       % short(n.ast, 40), f.loc(n.ast))
+                continue
             # a slice that drops elements is only sound for targets which
             # Task._update accepts without the single-step test
-            if okv and (v.slice.lower is not None or
-                        v.slice.upper is not None):
+            if okv and (v.slice.upper is not None or (
+                    v.slice.lower is not None and
+                    unparse(v.slice.lower) != '0')):
                 exempt = _exempt_targets(prog)
-                allowed = None
-                for tid, lab in guards(g, n.id, start=start):
-                    t = g.nodes[tid].ast
-                    if isinstance(t, ast.Compare) and len(t.ops) == 1:
-                        vv = prog.fold(f.module, t.comparators[0])
-                        if vv is UNKNOWN:
-                            continue
-                        if isinstance(t.ops[0], ast.In) and lab == 'T':
-                            allowed = set(vv)
-                        elif isinstance(t.ops[0], ast.Eq) and lab == 'T':
-                            allowed = {vv}
+                # the target states for which the statement is reached: the
+                # tests on the target state (the first result of the progress
+                # call / the state of the notification) are evaluated for
+                # every state, all other tests are free
+                tnames = {unparse(origin(a[2]))} if len(a) == 3 else set()
+                if isinstance(asg.targets[0].elts[0], ast.Name):
+                    tnames.add(asg.targets[0].elts[0].id)
+                ttests = []
+                for m in g.nodes:
+                    if m.kind != 'test' or m.ast is None:
+                        continue
+                    cc = const_compare(prog, f.module, m.ast, f.cls)
+                    if cc is None:
+                        continue
+                    ln = m.ast.left if unparse(m.ast.left) == cc[0] \
+                        else m.ast.comparators[0]
+                    if cc[0] in tnames or _origin(g, ln, m.id) in tnames:
+                        ttests.append((m.id, cc[1], cc[2]))
+                allowed = set()
+                for st in (_states(prog)[0] if ttests else ()):
+                    skip = [(tid, 'F' if (st in vals) == (op == 'in') else 'T')
+                            for tid, op, vals in ttests]
+                    if n.id in g.reachable(start, skip_edges=skip):
+                        allowed.add(st)
+                if not ttests:
+                    allowed = None
                 rep.check(allowed is not None and allowed <= exempt, rid, f,
                           'intermediate states are dropped (`%s`) only for '
                           'targets exempt from the single-step test %s'
@@ -875,19 +1769,40 @@ def _body_expr(fn):
     return None
 
 
+def _straight_body(fn):
+    """([(name, expr)], result expr) of a function whose body is a sequence
+    of assignments to plain names followed by `return <expr>`"""
+    stmts = [s for s in fn.node.body
+             if not (isinstance(s, ast.Expr) and
+                     isinstance(s.value, ast.Constant))]
+    if not stmts or not isinstance(stmts[-1], ast.Return) or \
+            stmts[-1].value is None:
+        return None
+    pre = []
+    for st in stmts[:-1]:
+        if isinstance(st, ast.Assign) and len(st.targets) == 1 and \
+                isinstance(st.targets[0], ast.Name):
+            pre.append((st.targets[0].id, st.value))
+        elif isinstance(st, ast.AnnAssign) and st.value is not None and \
+                isinstance(st.target, ast.Name):
+            pre.append((st.target.id, st.value))
+        else:
+            return None
+    return pre, stmts[-1].value
+
+
 class _Scope:
     """one function, evaluated for a task in state `cur` and (in Task._update)
     an update dict whose 'state' is `tgt`"""
 
     def __init__(self, prog, f, cur, tgt=None, recv=(), site=None, depth=0):
-        from ..flow import assigned_names
         self.prog, self.f = prog, f
         self.cur, self.tgt = cur, tgt
         self.recv = set(recv)         # source texts denoting the task object
         self.site = site              # the `_update` call looked at (caller)
         self.dparam = 'task_dict'     # name of _update's dict parameter
         self.depth = depth
-        self.locals = set(f.params) | assigned_names(f.node)
+        self.locals = _locals_of(f)
         self._task = None
         self._deps = None
         self._ideps = None
@@ -1086,10 +2001,15 @@ class _Scope:
                 callee = None
         if callee is None:
             return None
-        body = _body_expr(callee)
+        # a function defined inside the evaluated one reads its variables:
+        # its result depends on the states unless it can be followed
+        closure = callee.parent is not None and callee.parent is self.f
+        opaque = _DEP if closure else None
+        sb = _straight_body(callee)
         a = callee.node.args
-        if body is None or a.vararg or a.kwarg or a.kwonlyargs:
-            return None
+        if sb is None or a.vararg or a.kwarg or a.kwonlyargs:
+            return opaque
+        pre, body = sb
         params = [x.arg for x in a.posonlyargs + a.args]
         deco = {dotted(d) for d in callee.node.decorator_list}
         vals = list(args)
@@ -1099,11 +2019,11 @@ class _Scope:
                 return None
             vals = [base] + vals
         if len(vals) > len(params):
-            return None
+            return opaque
         bound = dict(zip(params, vals))
         for k in e.keywords:
             if k.arg not in params or k.arg in bound:
-                return None
+                return opaque
             bound[k.arg] = self.ev(k.value, env)
         nd = len(a.defaults)
         for prm, dv in zip(a.args[len(a.args) - nd:], a.defaults):
@@ -1111,8 +2031,21 @@ class _Scope:
                 v = self.prog.fold(callee.module, dv)
                 bound[prm.arg] = _FREE if v is UNKNOWN else _c(v)
         if any(p not in bound for p in params):
-            return None
-        sub = _Scope(self.prog, callee, self.cur, None, depth=self.depth + 1)
+            return opaque
+        if closure:
+            sub = _Scope(self.prog, callee, self.cur, self.tgt,
+                         recv=self.recv, depth=self.depth + 1)
+            sub.dparam = self.dparam
+            # the variables of the enclosing function as they are now; names
+            # the inner function binds itself are its own
+            own = _locals_of(callee)
+            bound = dict({k: v for k, v in env.items() if k not in own},
+                         **bound)
+        else:
+            sub = _Scope(self.prog, callee, self.cur, None,
+                         depth=self.depth + 1)
+        for name, expr in pre:
+            bound[name] = sub.ev(expr, bound)
         return sub.ev(body, bound)
 
     @staticmethod
@@ -1708,38 +2641,448 @@ def r06_6(prog, rep, rid='R06.6'):
 
 
 # ------------------------------------------------------------------------------
+# R06.8  the dispatch of state notifications never removes callbacks
+#
+_REMOVERS = {'pop', 'popitem', 'clear', 'remove', 'discard', '__delitem__'}
+
+
+def _registries(prog, tm):
+    """attributes of the task manager in which register_callback stores the
+    callback it was given"""
+    f = prog.find_method(tm, 'register_callback')
+    if f is None:
+        raise AnalysisError('anchor %s.register_callback not found' % tm.where)
+    params = [p for p in f.params if p != 'self']
+    if not params:
+        raise AnalysisError('UNRECOGNISED-IDIOM %s: parameters' % f.where)
+    d = Deps(f.node, implicit=False)
+    out = set()
+    for n in walk(f.node):
+        if isinstance(n, ast.Assign):
+            for t in n.targets:
+                if isinstance(t, ast.Subscript):
+                    l = Deps.loc(t)
+                    if l and l.startswith('self.') and \
+                            params[0] in d.expr_depends(n.value):
+                        out.add(l.split('.', 1)[1])
+    if not out:
+        raise AnalysisError('UNRECOGNISED-IDIOM %s: no store of `%s` into an '
+                            'attribute of the task manager'
+                            % (f.where, params[0]))
+    return out
+
+
+def _dispatch_path(prog, tm):
+    """{FuncInfo: (call chain, per_record, calls)} of the methods which run
+    for a batch of state notifications: _update_tasks and what it calls on
+    self.  per_record: the method is (transitively) called from inside a
+    loop, i.e. once per collected (task, state) record and not once per
+    batch; calls: the calls in it that stay on the dispatch path"""
+    root = prog.find_method(tm, '_update_tasks')
+    if root is None:
+        raise AnalysisError('anchor %s._update_tasks not found' % tm.where)
+    out = {root: ([root.name], False, [])}
+    todo = [root]
+    while todo:
+        f = todo.pop()
+        chain, per_record, calls = out[f]
+        if len(chain) > 5:
+            continue
+        in_loop = set()
+        for n in walk(f.node, nested=True):
+            if isinstance(n, (ast.For, ast.While)):
+                for st in n.body:
+                    in_loop |= {id(c) for c in calls_in(st, nested=True)}
+            elif isinstance(n, (ast.ListComp, ast.SetComp, ast.DictComp,
+                                ast.GeneratorExp)):
+                in_loop |= {id(c) for c in calls_in(n, nested=True)}
+        for c in calls_in(f.node, nested=True):
+            if isinstance(c.func, ast.Attribute) and \
+                    isinstance(c.func.value, ast.Name) and \
+                    c.func.value.id == 'self':
+                try:
+                    callee = prog.resolve_call(f, c, tm)
+                except AnalysisError:
+                    callee = None
+                if callee is None:
+                    continue
+                calls.append(c)
+                pr = per_record or id(c) in in_loop
+                if callee not in out or (pr and not out[callee][1]):
+                    out[callee] = (chain + [callee.name], pr, [])
+                    todo.append(callee)
+    return out
+
+
+def _registry_paths(f, regs):
+    """predicate: the expression denotes the registry or a container inside
+    it (not a copy), local aliases followed flow-insensitively"""
+    alias = set()
+
+    def is_path(e):
+        if isinstance(e, ast.Attribute):
+            return isinstance(e.value, ast.Name) and e.value.id == 'self' and \
+                e.attr in regs
+        if isinstance(e, ast.Name):
+            return e.id in alias
+        if isinstance(e, ast.Subscript):
+            return is_path(e.value)
+        if isinstance(e, ast.Call) and isinstance(e.func, ast.Attribute) and \
+                e.func.attr in ('get', 'setdefault'):
+            return is_path(e.func.value)
+        if isinstance(e, ast.IfExp):
+            return is_path(e.body) or is_path(e.orelse)
+        if isinstance(e, ast.BoolOp):
+            return any(is_path(v) for v in e.values)
+        if isinstance(e, ast.NamedExpr):
+            return is_path(e.value)
+        return False
+
+    def bind(t, how):
+        names = set()
+        if isinstance(t, ast.Name) and how in ('value', 'values'):
+            names.add(t.id)
+        elif isinstance(t, (ast.Tuple, ast.List)) and how == 'items' and \
+                len(t.elts) == 2 and isinstance(t.elts[1], ast.Name):
+            names.add(t.elts[1].id)
+        return names
+    while True:
+        new = set()
+        for n in walk(f.node, nested=True):
+            if isinstance(n, ast.Assign) and is_path(n.value):
+                for t in n.targets:
+                    new |= bind(t, 'value')
+            elif isinstance(n, ast.NamedExpr) and is_path(n.value):
+                new |= bind(n.target, 'value')
+            elif isinstance(n, (ast.For, ast.comprehension)):
+                it = n.iter
+                if isinstance(it, ast.Call) and \
+                        isinstance(it.func, ast.Attribute) and \
+                        it.func.attr in ('values', 'items') and \
+                        is_path(it.func.value):
+                    new |= bind(n.target, it.func.attr)
+        if new <= alias:
+            break
+        alias |= new
+    return is_path
+
+
+def _is_empty(e):
+    return (isinstance(e, ast.Constant) and e.value is None) or (
+        isinstance(e, (ast.Dict, ast.List, ast.Set, ast.Tuple)) and
+        not getattr(e, 'keys', None) and not getattr(e, 'elts', None)) or (
+        isinstance(e, ast.Call) and isinstance(e.func, ast.Name) and
+        e.func.id in ('dict', 'list', 'set', 'tuple') and not e.args and
+        not e.keywords)
+
+
+def _removals(f, is_path):
+    """[(ast node, text)] statements / calls in f that take entries out of
+    the registry"""
+    out = []
+    for n in walk(f.node, nested=True):
+        if isinstance(n, ast.Delete):
+            for t in n.targets:
+                if isinstance(t, ast.Subscript) and is_path(t.value):
+                    out.append((n, 'del'))
+                elif isinstance(t, ast.Attribute) and is_path(t):
+                    out.append((n, 'del'))
+        elif isinstance(n, ast.Call) and isinstance(n.func, ast.Attribute) \
+                and n.func.attr in _REMOVERS and is_path(n.func.value):
+            out.append((n, n.func.attr))
+        elif isinstance(n, ast.Assign):
+            for t in n.targets:
+                if isinstance(t, ast.Attribute) and is_path(t):
+                    out.append((n, 'rebind'))         # self._callbacks = ...
+                elif isinstance(t, ast.Subscript) and is_path(t.value) and \
+                        _is_empty(n.value):
+                    out.append((n, 'reset'))
+    return out
+
+
+def r06_8(prog, rep, rid='R06.8'):
+    rep.rule(rid, 'callbacks registered for a task receive every (task, '
+             'state) record of a batch: nothing on the dispatch path of the '
+             'notifications (_update_tasks and the methods it calls) takes '
+             'entries out of the callback registry', minimum=1)
+    tm = prog.cls(*TMGR)
+    regs = _registries(prog, tm)
+    final = set(prog.const(STATES, 'FINAL'))
+    n_seen = 0
+    dpath = _dispatch_path(prog, tm)
+    for f, (chain, per_record, dcalls) in sorted(dpath.items(),
+                                                 key=lambda x: x[0].qual):
+        is_path = _registry_paths(f, regs)
+        touches = any(is_path(n) for n in walk(f.node, nested=True)
+                      if isinstance(n, (ast.Attribute, ast.Name)))
+        if not touches:
+            continue
+        rep.saw(f)
+        n_seen += 1
+        rem = _removals(f, is_path)
+        if not rem:
+            rep.ok(rid, f, '%s reads the callback registry (self.%s) and '
+                   'removes nothing from it' % (
+                       ' -> '.join(chain), ', self.'.join(sorted(regs))),
+                   f.loc())
+            continue
+        g = cfg_of(f)
+        smap = I.stmt_node_map(g)
+        for n, how in rem:
+            node = smap.get(id(n))
+            if node is None:
+                raise AnalysisError('UNRECOGNISED-IDIOM %s: `%s` is not a '
+                                    'statement of the function itself'
+                                    % (f.where, short(n, 50)))
+            gtxt = []
+            obj_final = False
+            for tid, lab in guards(g, node.id):
+                t = g.nodes[tid].ast
+                gtxt.append(short(t, 40) if lab == 'T'
+                            else 'not (%s)' % short(t, 40))
+                cc = const_compare(prog, f.module, t, f.cls)
+                if cc is None:
+                    continue
+                lhs, op, vals = cc
+                holds = (op == 'in') == (lab == 'T')
+                src = t.left if unparse(t.left) == lhs else t.comparators[0]
+                if not (holds and vals and vals <= final):
+                    continue
+                o = _origin(g, src, tid)
+                if o in f.params:
+                    # the state that is being announced (a parameter), not
+                    # the state of the task object
+                    raise AnalysisError(
+                        'UNRECOGNISED-IDIOM %s: `%s` removes callbacks when '
+                        'the announced state `%s` is final: whether every '
+                        'record was delivered before is not decided here'
+                        % (f.where, short(n, 50), lhs))
+                if o.rpartition('.')[2] in _STATE_ATTRS:
+                    obj_final = True
+            if obj_final and not per_record:
+                # once per batch, for tasks that are final when the batch
+                # has been applied: harmless after the records were handed
+                # to the callbacks, harmful before
+                if len(chain) > 1:
+                    raise AnalysisError(
+                        'UNRECOGNISED-IDIOM %s: `%s` removes the callbacks '
+                        'of final tasks once per batch: whether they were '
+                        'collected before is not decided here'
+                        % (f.where, short(n, 50)))
+                later = g.reachable(node.id)
+                if not any(smap[id(c)].id in later for c in dcalls
+                           if id(c) in smap and smap[id(c)] is not node):
+                    rep.ok(rid, f, '`%s`: callbacks of final tasks are '
+                           'removed after the records of the batch were '
+                           'dispatched' % short(n, 40), f.loc(n))
+                    continue
+            rep.bad(rid, f, n,
+                    '%s takes entries out of the callback registry (`%s`%s) '
+                    'on the dispatch path of the state notifications (%s).  '
+                    '_update_tasks applies all updates of a batch before it '
+                    'dispatches the collected (task, state) records, one '
+                    'call per replayed state: the state of the task object '
+                    'is then already the last state of the batch, and '
+                    'callbacks removed while one record is dispatched never '
+                    'see the remaining records of that task (removal belongs '
+                    'to unregister_callback / close)' % (
+                        f.qual, short(n, 60), ', under `%s`' % ' and '.join(
+                            gtxt[-2:]) if gtxt else '', ' -> '.join(chain)),
+                    f.loc(n),
+                    history='task.register_callback(cb); one batch moves '
+                    'the task from AGENT_EXECUTING to DONE (notification '
+                    'skips ahead, or [TMGR_STAGING_OUTPUT, DONE] in one '
+                    'batch): cb is called for the first replayed state '
+                    'only, DONE is never announced to it although '
+                    'Task.state is DONE')
+    if n_seen < 1:
+        raise AnalysisError('R06.8: no method on the dispatch path of '
+                            '_update_tasks reads the callback registry '
+                            '(self.%s)' % ', self.'.join(sorted(regs)))
+
+
+# ------------------------------------------------------------------------------
+# R06.9  the dispatcher hands the announced state to the callbacks
+#
+def _record_dispatchers(prog):
+    """[(dispatcher FuncInfo, task parameter, state parameter)]: the methods
+    _update_tasks calls once per collected (task, state) record"""
+    tm, f, g, smap, H = batch_info(prog)
+    out = []
+    # the records: <list>.append([task, s]) inside the replay loop over s
+    recs = {}
+    for c in calls_in(f.node):
+        if isinstance(c.func, ast.Attribute) and c.func.attr == 'append' and \
+                isinstance(c.func.value, ast.Name) and len(c.args) == 1 and \
+                isinstance(c.args[0], (ast.List, ast.Tuple)) and \
+                len(c.args[0].elts) == 2 and id(c) in smap:
+            loops = [g.nodes[l] for l in smap[id(c)].loops
+                     if g.nodes[l].kind == 'for' and l != H.id]
+            for k, e in enumerate(c.args[0].elts):
+                if isinstance(e, ast.Name) and any(
+                        isinstance(l.ast.target, ast.Name) and
+                        l.ast.target.id == e.id for l in loops):
+                    recs[c.func.value.id] = k
+    for n in g.nodes:
+        if n.kind != 'for' or not isinstance(n.ast.iter, ast.Name) or \
+                n.ast.iter.id not in recs or \
+                not isinstance(n.ast.target, (ast.Tuple, ast.List)) or \
+                len(n.ast.target.elts) != 2 or \
+                not all(isinstance(e, ast.Name) for e in n.ast.target.elts):
+            continue
+        tv = [e.id for e in n.ast.target.elts]
+        k = recs[n.ast.iter.id]
+        for c in calls_in(n.ast):
+            if not (isinstance(c.func, ast.Attribute) and
+                    isinstance(c.func.value, ast.Name) and
+                    c.func.value.id == 'self'):
+                continue
+            callee = prog.resolve_call(f, c, tm)
+            if callee is None or c.keywords or \
+                    sorted(unparse(a) for a in c.args) != sorted(tv):
+                continue
+            params = [p for p in callee.params if p != 'self']
+            if len(params) != 2:
+                continue
+            names = [unparse(a) for a in c.args]
+            out.append((callee, params[names.index(tv[1 - k])],
+                        params[names.index(tv[k])]))
+    return out
+
+
+def r06_9(prog, rep, rid='R06.9'):
+    rep.rule(rid, 'the method that dispatches one (task, state) record calls '
+             'every callback with the task and the state of that record '
+             '(the announced state), not with the state the task object has '
+             'after the whole batch', minimum=2)
+    tm = prog.cls(*TMGR)
+    regs = {'self.' + r for r in _registries(prog, tm)}
+    disp = _record_dispatchers(prog)
+    if not disp:
+        raise AnalysisError('UNRECOGNISED-IDIOM %s._update_tasks: no method '
+                            'called once per collected (task, state) record'
+                            % tm.where)
+    n_calls = 0
+    for f, p_task, p_state in disp:
+        rep.saw(f)
+        g = cfg_of(f)
+        smap = I.stmt_node_map(g)
+        d = Deps(f.node, implicit=False)
+        for c in calls_in(f.node):
+            if isinstance(c.func, ast.Attribute) or id(c) not in smap or \
+                    not (d.expr_depends(c.func) & regs):
+                continue
+            node = smap[id(c)]
+            n_calls += 1
+            # the positional argument lists the call may be made with
+            cands = None
+            if not any(isinstance(a, ast.Starred) for a in c.args):
+                cands = [list(c.args)]
+            elif len(c.args) == 1 and isinstance(c.args[0].value, ast.Name):
+                rd = reaching_defs(g, c.args[0].value.id, node.id)
+                if rd and all(isinstance(v, (ast.Tuple, ast.List)) and
+                              not any(isinstance(x, ast.Starred)
+                                      for x in v.elts) for dn, v in rd):
+                    cands = [list(v.elts) for dn, v in rd]
+            if cands is None or any(len(a) < 2 for a in cands) or \
+                    c.keywords and any(k.arg is None for k in c.keywords):
+                raise AnalysisError('UNRECOGNISED-IDIOM %s: arguments of the '
+                                    'callback call `%s`' % (f.where,
+                                                            short(c, 50)))
+            for args in cands:
+                for pos, prm, what in ((0, p_task, 'task'),
+                                       (1, p_state, 'state')):
+                    o = _origin(g, args[pos], node.id)
+                    same = o == prm and not reaching_defs(g, prm, node.id)
+                    if not same and prm in d.expr_depends(args[pos]) | {
+                            x for x in [o] if x == prm}:
+                        raise AnalysisError(
+                            'UNRECOGNISED-IDIOM %s: `%s` passes `%s` as %s: '
+                            'computed from the parameter `%s`, equality not '
+                            'decided' % (f.where, short(c, 50),
+                                         short(args[pos], 30), what, prm))
+                    rep.check(same, rid, f, '`%s`: the %s handed to the '
+                              'callback is the parameter `%s`' % (
+                                  short(c, 40), what, prm),
+                              construct='dispatch:%s' % what,
+                              message='%s calls the callback as `%s` with '
+                              '`%s` in the place of the %s: not the %s of the '
+                              'dispatched record (parameter `%s`).  '
+                              '_update_tasks applies the whole batch before '
+                              'it dispatches, so the task object already has '
+                              'the last state of the batch: every callback '
+                              'invocation of a task that moved over several '
+                              'states announces that last state - the states '
+                              'in between are never announced, the last one '
+                              'several times' % (
+                                  f.qual, short(c, 50), short(args[pos], 30),
+                                  what, what, prm), loc=f.loc(c),
+                              history='a notification moves a task from '
+                              'AGENT_EXECUTING to DONE (intermediate states '
+                              'filled in): the callback is called five times '
+                              'with DONE instead of AGENT_STAGING_OUTPUT_'
+                              'PENDING ... DONE')
+    if n_calls < 1:
+        raise AnalysisError('UNRECOGNISED-IDIOM %s: no call of a callback '
+                            'taken from %s' % (disp[0][0].where,
+                                               ', '.join(sorted(regs))))
+
+
+# ------------------------------------------------------------------------------
 #
 def run(prog, rep, tier):
     rep.decided = ('the state table is a linear order with shared final '
         'value and X_PENDING directly before X; Task._state is written only '
         'by __init__ (NEW) and _update; _update is called only from the '
-        'replay loop and the guarded pilot-death callback; in _update the '
-        'DONE/FAILED early return and the single-step test (target - current '
-        '!= 1 raises) dominate the write; _task_state_progress raises on two '
-        'finals before comparing values, returns empty lists when there is no '
-        'progress and builds the passed list as range(current+1, target) + '
-        '[target]; the batch loop isolates raising calls per notification, '
-        'skips known states, replays each passed state through _update and '
-        'collects exactly one callback record per applied state, delivered '
-        'after the loop; every call of Task._update outside that replay '
-        '(the pilot-death callback) is, for each final current state, either '
-        'excluded by the guards of the caller or refused by Task._update '
-        '(decided by evaluating both functions over the state constants).')
-    rep.undecided = ('value semantics of _task_state_progress beyond its '
-        'guards; what application callbacks do.')
+        'replay loop and the guarded pilot-death callback; Task._update, '
+        'evaluated for every (current, target) pair of state constants the '
+        'way the replay calls it: DONE/FAILED are never left, a step other '
+        'than +1 is refused unless the target is FAILED/CANCELED, valid steps '
+        'and FAILED/CANCELED from any non-final state are applied; '
+        '_task_state_progress, evaluated for every pair: two final states '
+        'and requests that are no progress replay nothing, a forward request '
+        'replays exactly the states between current and target plus the '
+        'target and answers the target; evaluated again in two enumeration '
+        'orders of all pairs within one process: every result equals the '
+        'result of a first call (nothing kept between calls is handed out '
+        'for another target state); the batch loop isolates raising calls '
+        'per notification, skips known states, replays the list answered by '
+        'the progress call (no other source, intermediate states dropped '
+        'only for targets Task._update accepts from anywhere) through '
+        '_update and collects exactly one callback record per applied state, '
+        'delivered after the loop; nothing on the dispatch path of these '
+        'records (_update_tasks and the methods it calls on self) takes '
+        'entries out of the registry register_callback fills; every call of '
+        'Task._update outside that replay (the pilot-death callback) is, for '
+        'each final current state, either excluded by the guards of the '
+        'caller or refused by Task._update (decided by evaluating both '
+        'functions over the state constants).')
+    rep.undecided = ('what application callbacks do; histories of '
+        '_task_state_progress calls other than the two enumeration orders '
+        '(a discrepancy that only shows after three or more specific calls); '
+        'removal of callbacks guarded by the announced state being final '
+        '(reported as not analysable).')
     rep.assumptions = ['no other module writes Task._state through setattr '
                        'with a computed name',
                        'ru pubsub invokes _state_sub_cb once per message',
                        'R06.6: data attributes of a Task other than _state '
                        'do not encode its state; the state of a task does '
                        'not change between the guards of a caller and its '
-                       'call of _update (both under the same callback)']
+                       'call of _update (both under the same callback)',
+                       'R06.3 / R06.7: logging and profiling calls have no '
+                       'effect on the values of _task_state_progress; the '
+                       'module-level tables of states.py hold, when the '
+                       'function is first called, the values their '
+                       'definitions give']
     rep.attempt(r06_1, prog, rep)
     rep.attempt(r06_2, prog, rep)
     rep.attempt(r06_3, prog, rep)
     rep.attempt(r06_4, prog, rep)
     rep.attempt(r06_5, prog, rep)
     rep.attempt(r06_6, prog, rep)
+    rep.attempt(r06_7, prog, rep)
+    rep.attempt(r06_8, prog, rep)
+    rep.attempt(r06_9, prog, rep)
 
 
 # ------------------------------------------------------------------------------
@@ -1796,8 +3139,6 @@ MUTATIONS = [
         (_T, "                    raise RuntimeError('invalid state transition %s: %s -> %s'\n                            % (self.uid, current, target))\n", "")]),
     dict(name='R06.3 single-step test skipped for agent states', rules=('R06.3',), edits=[
         (_T, "            if target not in [rps.FAILED, rps.CANCELED]:\n                s_tgt", "            if target not in [rps.FAILED, rps.CANCELED] and 'AGENT' not in target:\n                s_tgt")]),
-    dict(name='R06.3 contradictory finals compared numerically', rules=('R06.3',), edits=[
-        (_S, "    if current in FINAL:\n        if target in FINAL:\n            raise ValueError('invalid transition for %s: %s -> %s'\n                             % (uid, current, target))\n\n    cur = _task_state_values[current]", "    cur = _task_state_values[current]")]),
     dict(name='R06.3 no-progress return replays the current state', rules=('R06.3',), edits=[
         (_S, "    if cur >= tgt:\n        # nothing to do, a similar or better progression happened earlier\n        return [current, []]\n\n    # dig out all intermediate states, skip current\n    passed = list()\n    for i in range(cur + 1,tgt):\n        passed.append(_task_state_inv[i])", "    if cur >= tgt:\n        # nothing to do, a similar or better progression happened earlier\n        return [current, [current]]\n\n    # dig out all intermediate states, skip current\n    passed = list()\n    for i in range(cur + 1,tgt):\n        passed.append(_task_state_inv[i])")]),
     dict(name='R06.3 equal states count as progress', rules=('R06.3',), edits=[
@@ -1907,4 +3248,326 @@ SILENT = [
          note='for a CANCELED task target was set to current: the write keeps CANCELED'),
     dict(name='FAILED/CANCELED truncation removed (information only)', edits=[
         (_M, "                    if target in [rps.CANCELED, rps.FAILED]:\n                        # don't replay intermediate states\n                        passed = passed[-1:]\n", "")]),
+]
+
+# text fragments of the unchanged tree used by the variants below
+_PROG_DEF = "def _task_state_progress(uid, current, target):\n"
+_PROG_BUILD = ("    # dig out all intermediate states, skip current\n"
+               "    passed = list()\n"
+               "    for i in range(cur + 1,tgt):\n"
+               "        passed.append(_task_state_inv[i])\n\n"
+               "    # append target state to trigger notification of transition\n"
+               "    passed.append(target)\n\n"
+               "    return target, passed\n")
+_PROG_CMP = ("    if cur >= tgt:\n"
+             "        # nothing to do, a similar or better progression happened earlier\n"
+             "        return [current, []]\n\n")
+_PROG_FINALS = ("    if current == CANCELED:\n"
+                "        if target in [DONE, FAILED, CANCELED]:\n"
+                "            return [target, []]\n\n"
+                "    if current in FINAL:\n"
+                "        if target in FINAL:\n"
+                "            raise ValueError('invalid transition for %s: %s -> %s'\n"
+                "                             % (uid, current, target))\n")
+_STEP = ("        if not reconnect:\n"
+         "            if target not in [rps.FAILED, rps.CANCELED]:\n"
+         "                s_tgt = rps._task_state_value(target)\n"
+         "                s_cur = rps._task_state_value(current)\n"
+         "                if s_tgt - s_cur != 1:\n"
+         "                    self._log.error('%s: invalid state transition %s -> %s',\n"
+         "                                    self.uid, current, target)\n"
+         "                    raise RuntimeError('invalid state transition %s: %s -> %s'\n"
+         "                            % (self.uid, current, target))\n")
+_KEYS = ("        for key in ['state', 'stdout', 'stderr', 'exit_code', 'return_value',\n"
+         "                    'endpoint_fs', 'resource_sandbox', 'session_sandbox',\n"
+         "                    'pilot', 'pilot_sandbox', 'task_sandbox', 'client_sandbox',\n"
+         "                    'exception', 'exception_detail', 'slots', 'partition',\n"
+         "                    'ofiles']:\n\n"
+         "            val = task_dict.get(key, None)\n"
+         "            if val is not None:\n"
+         "                setattr(self, \"_%s\" % key, val)\n")
+_CB_GET = ("            # get wildcard callbacks\n"
+           "            cb_dicts += self._callbacks[metric].get('*', {}).values()\n"
+           "            cb_dicts += self._callbacks[metric].get(uid, {}).values()\n")
+_CB_END = ("                except:\n"
+           "                    self._log.exception('cb error (%s)', cb.__name__)\n")
+_CB_DEF = "    def _task_cb(self, task, state):\n"
+_DISPATCH = ("        if to_notify:\n"
+             "            if _USE_BULK_CB:\n"
+             "                self._bulk_cbs(set([task for task,_ in to_notify]))\n"
+             "            else:\n"
+             "                for task, state in to_notify:\n"
+             "                    self._task_cb(task, state)\n")
+_PROGRESS = ("                    target, passed = rps._task_state_progress(uid, current,\n"
+             "                                                              target)\n\n"
+             "                    if target in [rps.CANCELED, rps.FAILED]:\n"
+             "                        # don't replay intermediate states\n"
+             "                        passed = passed[-1:]\n")
+
+MUTATIONS += [
+    dict(name='R06.7 passed states memoised per (current value, target value) (seed C06-e)', rules=('R06.7',), edits=[
+        (_S, _PROG_DEF, "_task_state_passed = dict()\n\n\n" + _PROG_DEF),
+        (_S, _PROG_BUILD,
+         "    passed = _task_state_passed.get((cur, tgt))\n\n"
+         "    if passed is None:\n\n"
+         "        passed = list()\n"
+         "        for i in range(cur + 1,tgt):\n"
+         "            passed.append(_task_state_inv[i])\n\n"
+         "        passed.append(target)\n\n"
+         "        _task_state_passed[cur, tgt] = passed\n\n"
+         "    return target, list(passed)\n")],
+         note='DONE, FAILED and CANCELED share the value 15: the first v -> final decides the last state of every later v -> other final'),
+    dict(name='R06.7 memo by values in try / except KeyError form', rules=('R06.7',), edits=[
+        (_S, _PROG_DEF, "_progress_cache = {}\n\n\n" + _PROG_DEF),
+        (_S, _PROG_BUILD,
+         "    try:\n"
+         "        return target, _progress_cache[cur, tgt][:]\n"
+         "    except KeyError:\n"
+         "        pass\n\n"
+         "    passed = [_task_state_inv[i] for i in range(cur + 1, tgt)] + [target]\n"
+         "    _progress_cache[cur, tgt] = tuple(passed)\n\n"
+         "    return target, passed\n")]),
+    dict(name='R06.7 memo by values in a mutable default argument, setdefault form', rules=('R06.7',), edits=[
+        (_S, _PROG_DEF, "def _task_state_progress(uid, current, target, _seen={}):\n"),
+        (_S, _PROG_BUILD,
+         "    passed = _seen.setdefault((cur, tgt), [_task_state_inv[i]\n"
+         "                               for i in range(cur + 1, tgt)] + [target])\n\n"
+         "    return target, list(passed)\n")]),
+    dict(name='R06.7 last progression kept in a global and reused when the values repeat', rules=('R06.7',), edits=[
+        (_S, _PROG_DEF, "_last_progress = None\n\n\n" + _PROG_DEF),
+        (_S, _PROG_BUILD,
+         "    global _last_progress\n"
+         "    if _last_progress and _last_progress[0] == (cur, tgt):\n"
+         "        return target, list(_last_progress[1])\n\n"
+         "    passed = list()\n"
+         "    for i in range(cur + 1,tgt):\n"
+         "        passed.append(_task_state_inv[i])\n"
+         "    passed.append(target)\n"
+         "    _last_progress = ((cur, tgt), passed)\n\n"
+         "    return target, list(passed)\n")],
+         note='bulks of equal transitions: t1 14 -> DONE directly followed by t2 14 -> FAILED'),
+    dict(name='R06.8 per-task callbacks dropped in _task_cb once the task is final (seed C06-f)', rules=('R06.8',), edits=[
+        (_M, _CB_END, _CB_END + "\n            if task.state in rps.FINAL:\n                self._callbacks[metric].pop(uid, None)\n")],
+         note='_update_tasks applied the whole batch before: task.state is the last state of the batch, not the announced one'),
+    dict(name='R06.8 same clean-up through a local alias and del', rules=('R06.8',), edits=[
+        (_M, _CB_GET, "            registry = self._callbacks[metric]\n"
+                      "            cb_dicts += registry.get('*', {}).values()\n"
+                      "            cb_dicts += registry.get(uid, {}).values()\n"),
+        (_M, _CB_END, _CB_END + "\n            done = task.state in rps.FINAL\n            if done and uid in registry:\n                del registry[uid]\n")]),
+    dict(name='R06.8 clean-up for final tasks in _update_tasks before the dispatch', rules=('R06.8',), edits=[
+        (_M, _DISPATCH, "        for task, _ in to_notify:\n"
+                        "            if task.state in rps.FINAL:\n"
+                        "                self._callbacks[rpc.TASK_STATE].pop(task.uid, None)\n\n" + _DISPATCH)],
+         note='the per-task callbacks are gone before any record of the batch is dispatched'),
+    dict(name='R06.8 per-task callbacks are one-shot (cleared after the first dispatch)', rules=('R06.8',), edits=[
+        (_M, _CB_END, _CB_END + "\n            self._callbacks[metric].get(uid, {}).clear()\n")]),
+    dict(name='R06.5 FAILED / CANCELED notifications skip the progress function (seeds C06-d, C05-f)', rules=('R06.5',), edits=[
+        (_M, _PROGRESS,
+         "                    if target in [rps.CANCELED, rps.FAILED]:\n"
+         "                        passed = [target]\n\n"
+         "                    else:\n"
+         "                        target, passed = rps._task_state_progress(uid, current,\n"
+         "                                                                  target)\n")],
+         note='the progress function is also the arbiter between contradictory finals: CANCELED then FAILED is replayed'),
+    dict(name='R06.5 FAILED notifications skip the progress function (== form)', rules=('R06.5',), edits=[
+        (_M, _PROGRESS,
+         "                    target, passed = rps._task_state_progress(uid, current,\n"
+         "                                                              target)\n\n"
+         "                    if target == rps.CANCELED:\n"
+         "                        passed = passed[-1:]\n\n"
+         "                    if task_dict['state'] == rps.FAILED:\n"
+         "                        passed = [rps.FAILED]\n")]),
+    dict(name='R06.3 final correction announced: CANCELED -> DONE/FAILED replays the target (seed C06-b)', rules=('R06.3',), edits=[
+        (_S, "        if target in [DONE, FAILED, CANCELED]:\n            return [target, []]\n\n    if current in FINAL:\n",
+             "        if target == CANCELED:\n            return [target, []]\n        if target in [DONE, FAILED]:\n            return [target, [target]]\n\n    if current in FINAL:\n")]),
+    dict(name='R06.3 merged final guard raises only for DONE (FAILED -> final falls through)', rules=('R06.3',), edits=[
+        (_S, _PROG_FINALS,
+         "    if current in FINAL and target in FINAL:\n"
+         "        if current == DONE:\n"
+         "            raise ValueError('invalid transition for %s: %s -> %s'\n"
+         "                             % (uid, current, target))\n"
+         "        if current == CANCELED:\n"
+         "            return [target, []]\n"),
+        (_S, _PROG_CMP + _PROG_BUILD, _PROG_CMP.replace('cur >= tgt', 'cur > tgt') + _PROG_BUILD)],
+         note='only visible together: FAILED -> DONE reaches the comparison, 15 > 15 is false, DONE is replayed'),
+    dict(name='R06.3 flag form of the single-step test forgets the reconnect negation', rules=('R06.3',), edits=[
+        (_T, _STEP,
+         "        check = reconnect and target not in [rps.FAILED, rps.CANCELED]\n"
+         "        if check and rps._task_state_value(target) \\\n"
+         "                   - rps._task_state_value(current) != 1:\n"
+         "            raise RuntimeError('invalid state transition %s: %s -> %s'\n"
+         "                               % (self.uid, current, target))\n")]),
+]
+
+SILENT += [
+    dict(name='contradictory finals dropped silently instead of raising', edits=[
+        (_S, "    if current in FINAL:\n        if target in FINAL:\n            raise ValueError('invalid transition for %s: %s -> %s'\n                             % (uid, current, target))\n\n    cur = _task_state_values[current]", "    cur = _task_state_values[current]")],
+         note='was a mutant of the shape-based R06.3; evaluated: DONE -> FAILED replays nothing either way (15 >= 15), which is what the property asks for'),
+    dict(name='R06.3 progress: final guards merged, comprehension, mirrored comparison (seed C06-r6)', edits=[
+        (_S, _PROG_FINALS,
+         "    if current in FINAL and target in FINAL:\n\n"
+         "        if current != CANCELED:\n"
+         "            raise ValueError('invalid transition for %s: %s -> %s'\n"
+         "                             % (uid, current, target))\n\n"
+         "        return [target, []]\n"),
+        (_S, _PROG_CMP + _PROG_BUILD, _PROG_CMP.replace('cur >= tgt', 'tgt <= cur') +
+         "    passed = [_task_state_inv[val] for val in range(cur + 1, tgt)] + [target]\n\n"
+         "    return target, passed\n")]),
+    dict(name='R06.3 _update: single-step test as flag + one condition, cached attributes (seed C06-r6)', edits=[
+        (_T, _STEP,
+         "        check = not reconnect and target not in [rps.FAILED, rps.CANCELED]\n\n"
+         "        if check and rps._task_state_value(target) \\\n"
+         "                   - rps._task_state_value(current) != 1:\n"
+         "            self._log.error('%s: invalid state transition %s -> %s',\n"
+         "                            self.uid, current, target)\n"
+         "            raise RuntimeError('invalid state transition %s: %s -> %s'\n"
+         "                               % (self.uid, current, target))\n")]),
+    dict(name='R06.3 _update: key list as class attribute, early-continue loop, concatenated name (seed C06-r6)', edits=[
+        (_T, _UPD_DEF, "    _update_keys = ['state', 'stdout', 'stderr', 'exit_code', 'return_value',\n"
+                       "                    'endpoint_fs', 'resource_sandbox', 'session_sandbox',\n"
+                       "                    'pilot', 'pilot_sandbox', 'task_sandbox', 'client_sandbox',\n"
+                       "                    'exception', 'exception_detail', 'slots', 'partition',\n"
+                       "                    'ofiles']\n\n" + _UPD_DEF),
+        (_T, _KEYS,
+         "        for key in self._update_keys:\n\n"
+         "            val = task_dict.get(key)\n"
+         "            if val is None:\n"
+         "                continue\n\n"
+         "            setattr(self, '_' + key, val)\n")]),
+    dict(name='R06.3 progress: while loop and extend instead of for / append', edits=[
+        (_S, _PROG_BUILD,
+         "    passed = []\n"
+         "    val = cur + 1\n"
+         "    while val < tgt:\n"
+         "        passed += [_task_state_inv[val]]\n"
+         "        val += 1\n"
+         "    passed.extend([target])\n\n"
+         "    return (target, passed)\n")]),
+    dict(name='R06.7 memo keyed by the state names, copy handed out', edits=[
+        (_S, _PROG_DEF, "_task_state_passed = dict()\n\n\n" + _PROG_DEF),
+        (_S, _PROG_BUILD,
+         "    passed = _task_state_passed.get((current, target))\n\n"
+         "    if passed is None:\n\n"
+         "        passed = list()\n"
+         "        for i in range(cur + 1,tgt):\n"
+         "            passed.append(_task_state_inv[i])\n\n"
+         "        passed.append(target)\n\n"
+         "        _task_state_passed[current, target] = passed\n\n"
+         "    return target, list(passed)\n")],
+         note='the key determines the target state: the result is a function of the arguments'),
+    dict(name='R06.7 intermediate states memoised per value pair, target appended after the lookup', edits=[
+        (_S, _PROG_DEF, "_task_states_between = dict()\n\n\n" + _PROG_DEF),
+        (_S, _PROG_BUILD,
+         "    key = (cur, tgt)\n"
+         "    if key not in _task_states_between:\n"
+         "        _task_states_between[key] = [_task_state_inv[i]\n"
+         "                                     for i in range(cur + 1, tgt)]\n\n"
+         "    return target, _task_states_between[key] + [target]\n")],
+         note='what is kept depends on the two values only'),
+    dict(name='R06.7 inverse table built lazily through a global', edits=[
+        (_S, _PROG_DEF, "_inv_lazy = None\n\n\n" + _PROG_DEF),
+        (_S, _PROG_BUILD,
+         "    global _inv_lazy\n"
+         "    if _inv_lazy is None:\n"
+         "        _inv_lazy = {v: k for k, v in _task_state_values.items()\n"
+         "                     if k not in FINAL}\n\n"
+         "    passed = list()\n"
+         "    for i in range(cur + 1,tgt):\n"
+         "        passed.append(_inv_lazy[i])\n"
+         "    passed.append(target)\n\n"
+         "    return target, passed\n")],
+         note='module-level state is written, but what is kept does not depend on the arguments'),
+    dict(name='R06.8 site: registry slot cached in a local, early-continue in the loop', edits=[
+        (_M, _CB_GET, "            registry = self._callbacks[metric]\n"
+                      "            cb_dicts += registry.get('*', {}).values()\n"
+                      "            cb_dicts += registry.get(uid, {}).values()\n")]),
+    dict(name='R06.8 site: callback list built by a comprehension over both slots', edits=[
+        (_M, "            cb_dicts = list()\n            metric   = rpc.TASK_STATE\n\n" + _CB_GET,
+             "            metric   = rpc.TASK_STATE\n"
+             "            cb_dicts = [cbd for key in ('*', uid)\n"
+             "                            for cbd in self._callbacks[metric].get(key, {}).values()]\n")]),
+    dict(name='R06.8 site: lookup extracted into a helper method', edits=[
+        (_M, _CB_GET, "            cb_dicts = self._state_cbs(metric, uid)\n"),
+        (_M, _CB_DEF, "    def _state_cbs(self, metric, uid):\n"
+                      "        slot = self._callbacks[metric]\n"
+                      "        return list(slot.get('*', {}).values()) + \\\n"
+                      "               list(slot.get(uid, {}).values())\n\n" + _CB_DEF)]),
+    dict(name='R06.8 clean-up for final tasks in _update_tasks after the dispatch', edits=[
+        (_M, _DISPATCH, _DISPATCH + "\n        for task, _ in to_notify:\n"
+                                    "            if task.state in rps.FINAL:\n"
+                                    "                self._callbacks[rpc.TASK_STATE].pop(task.uid, None)\n")],
+         note='changes behaviour (a later unregister_callback finds nothing), not the property: every record of a final task was dispatched before'),
+    dict(name='R06.5 site: replayed list initialised before the try, copied after the progress call', edits=[
+        (_M, "                try:\n                    target, passed = rps._task_state_progress",
+             "                passed = []\n                try:\n                    target, passed = rps._task_state_progress"),
+        (_M, "                        passed = passed[-1:]\n", "                        passed = passed[-1:]\n\n                    passed = list(passed)\n")]),
+    dict(name='R06.5 site: truncation in else-less positive form with renamed result', edits=[
+        (_M, _PROGRESS,
+         "                    reached, passed = rps._task_state_progress(uid, current,\n"
+         "                                                               target)\n\n"
+         "                    if reached == rps.CANCELED or reached == rps.FAILED:\n"
+         "                        passed = passed[len(passed) - 1:]\n")],
+         note='passed[len(passed) - 1:] == passed[-1:] for a non-empty list, [] for an empty one'),
+]
+
+_HANDLER = ("                    self._log.exception('tmgr: invalid state update: %s', uid)\n"
+            "                    continue\n")
+_CB_CALLS = ("                    if cb_data: cb(task, state, cb_data)\n"
+             "                    else      : cb(task, state)\n")
+
+MUTATIONS += [
+    dict(name='R06.4 handler ends the loop over the notifications (seed C06-g4)', rules=('R06.4',), edits=[
+        (_M, _HANDLER, _HANDLER.replace('continue', 'break'))]),
+    dict(name='R06.4 handler returns from _update_tasks', rules=('R06.4',), edits=[
+        (_M, _HANDLER, _HANDLER.replace('continue', 'return'))],
+         note='also the callbacks collected so far are lost'),
+    dict(name='R06.9 callbacks without cb_data get task.state (seed C06-g5)', rules=('R06.9',), edits=[
+        (_M, _CB_CALLS, _CB_CALLS.replace('cb(task, state)', 'cb(task, task.state)'))]),
+    dict(name='R06.9 the state handed to the callbacks is read from the task object first', rules=('R06.9',), edits=[
+        (_M, _CB_CALLS, "                    now = task.state\n"
+                        "                    if cb_data: cb(task, now, cb_data)\n"
+                        "                    else      : cb(task, now)\n")]),
+    dict(name='R06.9 argument tuple form with the task state', rules=('R06.9',), edits=[
+        (_M, _CB_CALLS, "                    if cb_data: args = (task, task.state, cb_data)\n"
+                        "                    else      : args = (task, state)\n"
+                        "                    cb(*args)\n")]),
+]
+
+SILENT += [
+    dict(name='R06.4 site: try / except / else, handler falls through to the next notification', edits=[
+        (_M, _HANDLER + "\n                task_dict['state'] = self._tasks[uid].state\n"
+                        "                ru.dict_merge(self._task_info[uid], task_dict, ru.OVERWRITE)\n",
+             _HANDLER.replace("                    continue\n", "") +
+             "\n                else:\n"
+             "                    task_dict['state'] = self._tasks[uid].state\n"
+             "                    ru.dict_merge(self._task_info[uid], task_dict, ru.OVERWRITE)\n")]),
+    dict(name='R06.4 / R06.5 site: replay extracted into a local function (seed C06-r8)', edits=[
+        (_M, "        to_notify = list()\n\n        with self._tasks_lock:\n",
+             "        to_notify = list()\n\n"
+             "        def replay(task, current, task_dict):\n"
+             "            target, passed = rps._task_state_progress(task_dict['uid'], current,\n"
+             "                                                      task_dict['state'])\n\n"
+             "            if target in [rps.CANCELED, rps.FAILED]:\n"
+             "                passed = passed[-1:]\n\n"
+             "            for s in passed:\n"
+             "                task_dict['state'] = s\n"
+             "                task._update(task_dict)\n"
+             "                to_notify.append([task, s])\n\n"
+             "        with self._tasks_lock:\n"),
+        (_M, _PROGRESS + "\n                    for s in passed:\n\n"
+                         "                        task_dict['state'] = s\n"
+                         "                        self._tasks[uid]._update(task_dict)\n\n"
+                         "                        to_notify.append([task, s])\n",
+             "                    replay(task, current, task_dict)\n")]),
+    dict(name='R06.9 site: argument tuple chosen on cb_data, one call', edits=[
+        (_M, _CB_CALLS, "                    if cb_data: args = (task, state, cb_data)\n"
+                        "                    else      : args = (task, state)\n"
+                        "                    cb(*args)\n")]),
+    dict(name='R06.9 site: announced state through a renamed local', edits=[
+        (_M, _CB_CALLS, "                    announced = state\n"
+                        "                    if cb_data: cb(task, announced, cb_data)\n"
+                        "                    else      : cb(task, announced)\n")]),
+    dict(name='R06.9 site: callback and its data unpacked in the loop header', edits=[
+        (_M, "            for cb_dict in cb_dicts:\n\n                cb      = cb_dict['cb']\n                cb_data = cb_dict['cb_data']\n",
+             "            for cb, cb_data in [(x['cb'], x['cb_data']) for x in cb_dicts]:\n")]),
 ]
